@@ -3874,3 +3874,1435 @@ Proof.
 Qed.
 
 End InsThm.
+
+(* ---------- remove ---------- *)
+(* the exact-match case of Tree.rem at the child c (index i) of a non-root node n *)
+Definition rem_exact (n : node) (i : nat) (c : node) (r : route) : rem_res :=
+  let updn (c' : node) := Node (nkey n) (nroute n) (replace_nth (nchildren n) i c') in
+  let edges := remove_nth (nchildren n) i in
+  match nchildren c with
+  | _ :: _ :: _ => RemReplace (updn (Node (nkey c) None (nchildren c))) r
+  | [g] => RemReplace (updn (merge_child c g)) r
+  | [] => match edges with
+          | [] => if negb (is_leaf n) then RemSplit r else RemReplace (rebuild n false edges false) r
+          | _ => RemReplace (rebuild n false edges false) r
+          end
+  end.
+
+Definition rem_child (f : nat) (n : node) (i : nat) (c : node) (rest : bytes) : rem_res :=
+  let lcp := List.length (common_prefix rest (nkey c)) in
+  let updn (c' : node) := Node (nkey n) (nroute n) (replace_nth (nchildren n) i c') in
+  let edges := remove_nth (nchildren n) i in
+  if Nat.eqb lcp (List.length (nkey c)) then
+    if Nat.eqb lcp (List.length rest) then
+      match nroute c with
+      | None => RemNotFound
+      | Some r => rem_exact n i c r
+      end
+    else
+      match rem f c false (skipn lcp rest) with
+      | RemNotFound => RemNotFound
+      | RemReplace c' r => RemReplace (updn c') r
+      | RemSplit r => RemReplace (rebuild n false edges true) r
+      | RemRoot _ _ => RemNotFound
+      end
+  else RemNotFound.
+
+Lemma rem_step f k r kids c0 rest0 :
+  rem (S f) (Node k r kids) false (c0 :: rest0) =
+  match find_child_from 0 c0 kids with
+  | None => RemNotFound
+  | Some i => match nth_error kids i with
+              | None => RemNotFound
+              | Some c => rem_child f (Node k r kids) i c (c0 :: rest0)
+              end
+  end.
+Proof.
+  cbn [rem]. unfold find_child, rem_child, rem_exact. cbn [nchildren nkey nroute].
+  destruct (find_child_from 0 c0 kids) as [i|]; auto.
+  destruct (nth_error kids i) as [c|]; auto.
+  destruct (Nat.eqb _ (List.length (nkey c))); auto.
+  destruct (Nat.eqb _ (List.length (c0 :: rest0))).
+  - destruct (nroute c); auto. destruct (nchildren c) as [|g [|g2 l]]; auto.
+    destruct (remove_nth kids i); auto. simpl. destruct (negb (is_leaf (Node k r kids))); auto.
+  - destruct (rem f c false _); auto.
+Qed.
+
+(* ---------- heap pieces of remove ---------- *)
+Lemma rm_del_nth (l : list addr) i x : NoDup l -> nth_error l i = Some x -> rm x l = del_nth l i.
+Proof.
+  revert i. induction l as [|y l IH]; intros [|i] ND H; simpl in *; try discriminate.
+  - inversion H; subst. rewrite Pos.eqb_refl. simpl. inversion ND as [|? ? Hn ND']; subst.
+    unfold rm. clear -Hn. induction l as [|z l IH]; simpl; auto.
+    destruct (Pos.eqb_spec z x) as [->|Hne]; simpl.
+    + exfalso. apply Hn. simpl. auto.
+    + f_equal. apply IH. intros Hi. apply Hn. simpl. auto.
+  - inversion ND as [|? ? Hn ND']; subst. destruct (Pos.eqb_spec y x) as [->|Hne]; simpl.
+    + exfalso. apply Hn. eapply nth_error_In; eauto.
+    + f_equal. apply IH; auto.
+Qed.
+
+Lemma heads_in s ch kids fps : reps s ch kids fps -> forall k c, nth_error ch k = Some c ->
+  exists f, nth_error fps k = Some f /\ In c f.
+Proof.
+  intros H k c Hk. destruct (all3_nth_a _ _ _ _ _ _ H Hk) as (n & f & _ & Hf & Hr).
+  exists f. split; auto. destruct (rep_head _ _ _ _ Hr) as (t & ->). simpl. auto.
+Qed.
+
+Lemma heads_nodup s ch kids fps : reps s ch kids fps -> NoDup (List.concat fps) -> NoDup ch.
+Proof.
+  unfold reps. revert kids fps. induction ch as [|c ch IH]; intros [|k kids] [|f fps] H ND; simpl in *; try tauto; try constructor.
+  - destruct H as [Hr H]. apply NoDup_app_inv in ND. destruct ND as (_ & _ & D).
+    intros Hin. apply In_nth_error in Hin. destruct Hin as (j & Hj).
+    destruct (heads_in s ch kids fps H j c Hj) as (g & Hg & Hc).
+    destruct (rep_head _ _ _ _ Hr) as (t & ->). apply (D c); [simpl; auto|]. eapply in_lconcat_nth; eauto.
+  - destruct H as [Hr H]. apply NoDup_app_inv in ND. eapply IH; eauto. tauto.
+Qed.
+
+Lemma del_nth_len {A} (l : list A) i x : nth_error l i = Some x -> S (List.length (del_nth l i)) = List.length l.
+Proof. revert i. induction l as [|y l IH]; intros [|i] H; simpl in *; try discriminate; auto. Qed.
+
+Lemma in_concat_del_nth {A} (l : list (list A)) i x : In x (List.concat (del_nth l i)) -> In x (List.concat l).
+Proof.
+  revert i. induction l as [|y l IH]; intros [|i] H; simpl in *; auto.
+  - apply in_or_app. auto.
+  - apply in_app_or in H. apply in_or_app. destruct H; eauto.
+Qed.
+
+Lemma NoDup_concat_del_nth {A} (l : list (list A)) i : NoDup (List.concat l) -> NoDup (List.concat (del_nth l i)).
+Proof.
+  revert i. induction l as [|y l IH]; intros [|i] H; simpl in *; auto.
+  - apply NoDup_app_inv in H. tauto.
+  - apply NoDup_app_inv in H. destruct H as (N1 & N2 & D). apply NoDup_app_intro; auto.
+    intros x Hx Hin. apply (D x Hx). eapply in_concat_del_nth; eauto.
+Qed.
+
+(* recreateParentEdge: a fresh array with the children of q minus the i-th *)
+Lemma recreate_rep s q qo qch kids fps i x pe s1 :
+  good 1 s -> find_node s q = Some qo -> find_arr s (n_arr qo) = Some qch -> reps s qch kids fps ->
+  NoDup (List.concat fps) -> nth_error qch i = Some x ->
+  recreate_parent_edge q x s = Ok (pe, s1) ->
+  pe = s_next s /\ s_next s1 = Pos.succ (s_next s) /\ find_arr s1 pe = Some (del_nth qch i) /\
+  (forall y, y < s_next s -> same_at s s1 y) /\ meta_same s s1 /\ good 1 s1 /\
+  reps s1 (del_nth qch i) (del_nth kids i) (del_nth fps i).
+Proof.
+  intros G Hq Hqch Hr ND Hi H. pose proof (good1_wf _ G) as Wf.
+  unfold recreate_parent_edge in H.
+  mbind H o s2 H2. apply get_node_ok in H2. destruct H2 as [-> Ho]. assert (o = qo) by congruence. subst o.
+  mbind H ch s2 H2. apply get_arr_ok in H2. destruct H2 as [-> Hch]. assert (ch = qch) by congruence. subst ch.
+  rewrite (rm_del_nth qch i x (heads_nodup _ _ _ _ Hr ND) Hi) in H.
+  rewrite (del_nth_len _ _ _ Hi) in H. rewrite Nat.eqb_refl in H.
+  assert (F : Forall (V s) (del_nth qch i)) by (apply Forall_del_nth; apply (wf_arr _ Wf _ _ Hqch)).
+  destruct (alloc_arr_ok 1 _ _ _ _ G F H) as (G1 & _).
+  destruct (alloc_arr_eff _ _ _ _ H) as (E & Nx & Fa & Oa & On & MS).
+  assert (Old : forall y, y < s_next s -> same_at s s1 y) by (intros y Ly; split; [apply On|apply Oa; lia]).
+  spl; auto.
+  eapply reps_frame; [apply all3_del; exact Hr|]. intros y Hy. apply Old.
+  apply in_concat_del_nth in Hy. pose proof (reps_lt _ _ _ _ Wf Hr) as L. rewrite Forall_forall in L. apply L. auto.
+Qed.
+
+(* rebuild_parent: the node for [edges] under the key/route of X: merged with its single child, or newNode *)
+Lemma rebuild_parent_rep s o X pe el ekids efps may_merge slash x s1 :
+  good 1 s -> find_arr s pe = Some el -> reps s el ekids efps -> NoDup (List.concat efps) ->
+  ~ In pe (List.concat efps) -> n_key o = nkey X -> n_route o = nroute X ->
+  rebuild_parent o pe may_merge slash s = Ok (x, s1) ->
+  exists fx, rep s1 x (rebuild X (negb may_merge) ekids slash) fx /\ NoDup fx /\
+    (forall y, In y fx -> y = x \/ y = pe \/ In y (List.concat efps)) /\
+    x = s_next s /\ s_next s1 = Pos.succ (s_next s) /\
+    (forall y, y < s_next s -> y <> pe -> same_at s s1 y) /\ meta_same s s1 /\ good 1 s1 /\
+    (may_merge = false -> own 1 s1 x) /\ In x fx.
+Proof.
+  intros G Hpe Hr ND Npe Hk Hrt H. pose proof (good1_wf _ G) as Wf.
+  assert (Lall : Forall (V s) (List.concat efps)) by (eapply reps_lt; eauto). rewrite Forall_forall in Lall.
+  unfold rebuild_parent in H. mbind H el2 s2 H2. apply get_arr_ok in H2. destruct H2 as [-> Hel2].
+  assert (el2 = el) by congruence. subst el2.
+  assert (NN : new_node (n_key o) (n_route o) pe s = Ok (x, s1) ->
+               exists fx, rep s1 x (Tree.new_node (nkey X) (nroute X) ekids) fx /\ NoDup fx /\
+                 (forall y, In y fx -> y = x \/ y = pe \/ In y (List.concat efps)) /\
+                 x = s_next s /\ s_next s1 = Pos.succ (s_next s) /\
+                 (forall y, y < s_next s -> y <> pe -> same_at s s1 y) /\ meta_same s s1 /\ good 1 s1 /\
+                 (may_merge = false -> own 1 s1 x) /\ In x fx).
+  { intros H0. destruct (wf_arr _ Wf _ _ Hpe) as [Vpe _].
+    destruct (new_node_ok 1 _ _ _ _ _ _ G ltac:(lia) H0) as (_ & _ & _ & Ox).
+    destruct (new_node_rep _ _ _ _ _ _ _ _ _ G Hpe Hr Npe H0) as (fps' & Ex & Nx & Rx & Perm & Old & MS & G1).
+    exists (x :: pe :: List.concat fps'). rewrite Hk, Hrt in Rx. spl; auto.
+    - constructor; [|constructor].
+      + intros [Hin|Hin]; [unfold V in Vpe; lia|]. apply (Permutation_in _ Perm) in Hin. apply Lall in Hin. unfold V in Hin. lia.
+      + intros Hin. apply (Permutation_in _ Perm) in Hin. auto.
+      + eapply Permutation_NoDup; [apply Permutation_sym; exact Perm|auto].
+    - intros y [<-|[<-|Hin]]; auto. right. right. eapply Permutation_in; eauto.
+    - simpl. auto. }
+  unfold rebuild.
+  destruct el as [|c [|c2 el]]; destruct ekids as [|g [|g2 ekids]]; destruct efps as [|fg [|fg2 efps]]; simpl in Hr; try tauto;
+    try (destruct (NN H) as (fx & R & Rest); exists fx; split; [exact R|exact Rest]).
+  destruct Hr as [Hrg _].
+  mbind H co s2 H2. apply get_node_ok in H2. destruct H2 as [-> Hco].
+  destruct g as [kg rg kidsg]. pose proof Hrg as Hrg0. apply rep_unfold in Hrg.
+  destruct Hrg as (co' & gch & fpsg & Hco' & Hkg & Hrg' & Hgch & Hkidsg & Hfg).
+  assert (co' = co) by congruence. subst co'.
+  unfold is_leaf. cbn [nkey nroute nchildren]. rewrite <- Hrt. rewrite Hkg in H.
+  assert (Ebool : (may_merge && negb (is_some (n_route o)) && negb (slash && starts_with "/" kg))%bool =
+                  (negb (match n_route o with Some _ => true | None => false end) && negb (negb may_merge) && negb (slash && starts_with "/" kg))%bool).
+  { destruct may_merge, (n_route o), (slash && starts_with "/" kg)%bool; reflexivity. }
+  rewrite Ebool in H.
+  destruct (negb (match n_route o with Some _ => true | None => false end) && negb (negb may_merge) && negb (slash && starts_with "/" kg))%bool eqn:Ec.
+  - (* merged with the single remaining child *)
+    destruct (nnfr_rep _ _ _ _ _ _ _ _ _ G Hgch Hkidsg H) as (Ex & Nx & Rx & Oldx & MSx & Gx).
+    exists (x :: n_arr co :: List.concat fpsg). unfold merge_child. cbn [nkey nroute nchildren].
+    rewrite Hk, Hrg' in Rx. simpl in ND. rewrite app_nil_r in ND. rewrite Hfg in ND.
+    spl; auto.
+    + inversion ND as [|? ? N1 N2]. constructor; auto. intros Hin.
+      assert (Vx : V s x) by (apply Lall; simpl; rewrite app_nil_r, Hfg; right; auto). unfold V in Vx. lia.
+    + intros y [<-|Hin]; auto. right. right. simpl. rewrite app_nil_r, Hfg. right. auto.
+    + intros Em. subst may_merge. rewrite Bool.andb_false_r in Ec. discriminate.
+    + simpl. auto.
+  - destruct (NN H) as (fx & R & Rest). exists fx. rewrite Hrt. split; [exact R|exact Rest].
+Qed.
+
+Lemma all3_nil_iff {A B C} (R : A -> B -> C -> Prop) la lb lc : all3 R la lb lc -> (la = [] <-> lb = []).
+Proof. destruct la, lb, lc; simpl; try tauto; intros _; split; discriminate. Qed.
+
+Section RemRoot.
+Variable evict : N -> list addr -> list addr.
+Hypothesis evict_sub : forall c w a, In a (evict c w) -> In a w.
+
+(* the rebuilt parent is the method root: drop the root, or n.key = method; writable.Add(n); updateRoot(n) *)
+Lemma finish_root_rep method s rs roots fps ri oldroot fr x k r ks fx b s' :
+  good 1 s -> find_arr s (s_root s) = Some rs -> reps s rs roots fps -> NoDup (List.concat fps) ->
+  ~ In (s_root s) (List.concat fps) ->
+  method_index roots method = Some ri -> nth_error roots ri = Some oldroot -> nth_error fps ri = Some fr ->
+  rep s x (Node k r ks) fx -> own 1 s x -> NoDup fx -> ~ In x (List.concat fps) ->
+  (forall y, In y fx -> In y fr \/ ~ In y (List.concat fps)) -> ~ In (s_root s) fx ->
+  finish_root evict method x s = Ok (b, s') ->
+  b = true /\ good 1 s' /\ s_size s' = s_size s /\ s_maxp s' = s_maxp s /\ s_depth s' = s_depth s /\
+  s_cache s' = s_cache s /\
+  if (is_nil ks && is_removable method)%bool then roots_rep s' (del_nth roots ri)
+  else roots_rep s' (set_nth roots ri (Node method r ks)).
+Proof.
+  intros G Hrs Hr ND NR MI Hold Hfr Hx Ox NDx Nxf Sub NRx H.
+  pose proof (good1_wf _ G) as Wf.
+  assert (Lall : Forall (V s) (List.concat fps)) by (eapply reps_lt; eauto). rewrite Forall_forall in Lall.
+  pose proof (rep_lt _ Wf _ _ _ Hx) as Lx. rewrite Forall_forall in Lx.
+  destruct (wf_arr _ Wf _ _ Hrs) as [VR Frs].
+  pose proof Hx as Hx0. apply rep_unfold in Hx. destruct Hx as (xo & xch & xfps & Hxo & Hxk & Hxr & Hxch & Hxkids & Hfx).
+  unfold finish_root in H.
+  mbind H po s0 H0. apply get_node_ok in H0. destruct H0 as [-> Hpo]. assert (po = xo) by congruence. subst po.
+  mbind H pch s0 H0. apply get_arr_ok in H0. destruct H0 as [-> Hpch]. assert (pch = xch) by congruence. subst pch.
+  assert (Enil : is_nil xch = is_nil ks).
+  { destruct (all3_nil_iff _ _ _ _ Hxkids) as [A B]. destruct xch, ks; simpl; auto.
+    all: try (specialize (A eq_refl); discriminate); try (specialize (B eq_refl); discriminate). }
+  rewrite Enil in H.
+  destruct (is_nil ks && is_removable method)%bool.
+  - (* removeRoot *)
+    destruct (remove_root_ok 1 _ _ _ _ G H) as (G' & _).
+    unfold remove_root in H.
+    mbind H idx s0 H0. rewrite (h_method_index_rep _ _ _ _ _ Hrs Hr) in H0. inversion H0; subst idx s0; clear H0.
+    rewrite MI in H.
+    mbind H rs' s0 H0. unfold get_roots, bind, get_root, get_arr in H0. unfold find_arr in Hrs. rewrite Hrs in H0.
+    inversion H0; subst rs' s0; clear H0. fold (find_arr s (s_root s)) in Hrs.
+    destruct (Nat.ltb ri (List.length rs)); [|discriminate].
+    mbind H AR s0 H0. destruct (alloc_arr_eff _ _ _ _ H0) as (EAR & N0 & FAR & OAR & ON0 & MS0). clear H0.
+    mbind H u s1 H1. apply ret_ok in H. destruct H as [-> <-].
+    destruct (set_root_eff _ _ _ _ H1) as (HS1 & R1 & Z1 & P1 & D1 & C1). clear H1.
+    destruct MS0 as (A1 & A2 & A3 & A4 & A5).
+    assert (SA : forall y, y < AR -> same_at s s' y).
+    { intros y Ly. eapply same_at_trans; [|apply heap_same_at; exact HS1]. split; [apply ON0|apply OAR; lia]. }
+    spl; auto; try congruence.
+    exists (del_nth rs ri), (del_nth fps ri). spl.
+    + rewrite R1, (proj2 (heap_same_at _ _ AR HS1)). auto.
+    + eapply reps_frame; [apply all3_del; exact Hr|]. intros y Hy. apply SA. apply in_concat_del_nth in Hy.
+      apply Lall in Hy. unfold V in Hy. lia.
+    + apply NoDup_concat_del_nth. auto.
+    + rewrite R1. intros Hin. apply in_concat_del_nth in Hin. apply Lall in Hin. unfold V in Hin. lia.
+  - (* n.key = method; updateRoot *)
+    mbind H u5 s5 H5.
+    destruct (set_key_ok 1 _ _ _ _ _ G ltac:(lia) H5) as (G5 & _).
+    destruct (set_key_eff _ _ _ _ _ H5) as (o5 & Ho5 & Fn5 & On5 & Oa5 & Nx5 & MS5). clear H5.
+    assert (o5 = xo) by congruence. subst o5.
+    assert (Nxt : ~ In x (n_arr xo :: List.concat xfps)) by (rewrite Hfx in NDx; inversion NDx; auto).
+    assert (Rx5 : rep s5 x (Node method r ks) fx).
+    { apply rep_unfold. eexists _, xch, xfps. spl; [exact Fn5| | | | |]; simpl; auto.
+      - rewrite Oa5. auto.
+      - eapply reps_frame; [exact Hxkids|]. intros y Hy. split; [|apply Oa5].
+        apply On5. intros ->. apply Nxt. simpl. auto. }
+    mbind H u6 s6 H6. destruct (w_add_if_cache_eff _ _ _ _ _ H6) as (HS6 & MS6).
+    assert (O5 : own 1 s5 x).
+    { split; [lia|]. eexists. split; [exact Fn5|]. simpl. lia. }
+    destruct (w_add_if_cache_ok evict evict_sub 1 _ _ _ _ G5 O5 H6) as (G6 & _). clear H6.
+    mbind H b0 s7 H7. apply ret_ok in H. destruct H as [-> <-].
+    assert (Vx : V s x) by (apply Lx; rewrite Hfx; simpl; auto).
+    assert (Vx6 : V s6 x). { unfold V in *. destruct HS6 as (_ & _ & ->). rewrite Nx5. auto. }
+    destruct (update_root_ok 1 _ _ _ _ G6 Vx6 H7) as (G7 & _).
+    assert (Old6 : forall y, y <> x -> same_at s s6 y).
+    { intros y Hy. eapply same_at_trans; [|apply heap_same_at; exact HS6]. split; [apply On5; auto|apply Oa5]. }
+    destruct MS5 as (D1 & D2 & D3 & D4 & D5). destruct MS6 as (E1 & E2 & E3 & E4 & E5).
+    assert (Rt6 : s_root s6 = s_root s) by congruence.
+    assert (NRx' : s_root s <> x) by (intros E; apply NRx; rewrite E, Hfx; simpl; auto).
+    assert (Hrs6 : find_arr s6 (s_root s6) = Some rs) by (rewrite Rt6, (proj2 (Old6 _ NRx')); auto).
+    assert (Hr6 : reps s6 rs roots fps).
+    { eapply reps_frame; [exact Hr|]. intros y Hy. apply Old6. intros ->. auto. }
+    assert (Fn6 : find_node s6 x = Some {| n_key := method; n_route := n_route xo; n_arr := n_arr xo |})
+      by (rewrite (proj1 (heap_same_at _ _ x HS6)); auto).
+    unfold update_root in H7.
+    mbind H7 kk s9 H9. unfold key_of in H9. mbind H9 o9 s10 H10. apply get_node_ok in H10. destruct H10 as [-> Ho9].
+    apply ret_ok in H9. destruct H9 as [-> ->]. rewrite Fn6 in Ho9. inversion Ho9; subst o9; clear Ho9. simpl in H7.
+    mbind H7 idx s9 H9. rewrite (h_method_index_rep _ _ _ _ _ Hrs6 Hr6) in H9. inversion H9; subst idx s9; clear H9.
+    rewrite MI in H7.
+    mbind H7 rs' s9 H9. unfold get_roots, bind, get_root, get_arr in H9. unfold find_arr in Hrs6. rewrite Hrs6 in H9.
+    inversion H9; subst rs' s9; clear H9. fold (find_arr s6 (s_root s6)) in Hrs6.
+    destruct (Nat.ltb_spec ri (List.length rs)) as [Lri|]; [|discriminate].
+    mbind H7 AR s9 H9.
+    destruct (alloc_arr_eff _ _ _ _ H9) as (EAR & N9 & FAR & OAR & ON9 & MS9). clear H9.
+    mbind H7 u3 s10 H10. apply ret_ok in H7. destruct H7 as [_ <-].
+    destruct (set_root_eff _ _ _ _ H10) as (HS10 & R10 & Z10 & P10 & D10 & C10). clear H10.
+    destruct MS9 as (F1 & F2 & F3 & F4 & F5).
+    assert (N6 : s_next s6 = s_next s) by (destruct HS6 as (_ & _ & ->); auto).
+    assert (SA : forall y, y < AR -> same_at s6 s' y).
+    { intros y Ly. eapply same_at_trans; [|apply heap_same_at; exact HS10]. split; [apply ON9|apply OAR; lia]. }
+    assert (Rx' : rep s' x (Node method r ks) fx).
+    { eapply rep_frame; [exact Rx5|]. intros y Hy. eapply same_at_trans; [apply heap_same_at; exact HS6|]. apply SA.
+      apply Lx in Hy. unfold V in Hy. lia. }
+    destruct (nth_error rs ri) as [oldr|] eqn:Holdr; [|apply nth_error_None in Holdr; lia].
+    spl; auto; try congruence.
+    exists (set_nth rs ri x), (set_nth fps ri fx). spl.
+    + rewrite R10, (proj2 (heap_same_at _ _ AR HS10)). auto.
+    + apply all3_set; auto. eapply reps_frame; [exact Hr6|]. intros y Hy. apply SA. apply Lall in Hy. unfold V in Hy. lia.
+    + eapply NoDup_concat_set_nth; eauto.
+    + rewrite R10. intros Hin. destruct (in_concat_set_nth _ _ _ _ Hin) as [Hy|Hy].
+      * apply Lx in Hy. unfold V in Hy. lia.
+      * apply Lall in Hy. unfold V in Hy. lia.
+Qed.
+
+End RemRoot.
+
+Section Rem.
+Variable evict : N -> list addr -> list addr.
+Hypothesis evict_sub : forall c w a, In a (evict c w) -> In a w.
+
+(* the part of tXn.remove after copyOnWriteSearch (i = index of the method root) *)
+Definition K_rem (method : bytes) (i : nat) (r : sres) : M (option route) :=
+  mo <- get_node (r_matched r) ;;
+  match is_exact r (List.length (n_key mo)), n_route mo with
+  | true, Some rt =>
+      bump_size (-1) ;;;
+      mch <- get_arr (n_arr mo) ;;
+      match mch with
+      | _ :: _ :: _ =>
+          n <- new_node_from_ref (n_key mo) None (n_arr mo) ;;
+          p <- opt_get (r_p r) ;; update_edge p n ;;; ret (Some rt)
+      | [c] =>
+          co <- get_node c ;;
+          n <- new_node_from_ref (n_key mo ++ n_key co) (n_route co) (n_arr co) ;;
+          p <- opt_get (r_p r) ;; update_edge p n ;;; ret (Some rt)
+      | [] =>
+          p <- opt_get (r_p r) ;; po <- get_node p ;;
+          pe <- recreate_parent_edge p (r_matched r) ;;
+          rs' <- get_roots ;; cur_root <- opt_get (nth_error rs' i) ;;
+          let parent_is_root := Pos.eqb p cur_root in
+          pel <- get_arr pe ;;
+          if is_nil pel && negb (is_some (n_route po)) && negb parent_is_root then
+            pp <- opt_get (r_pp r) ;; ppo <- get_node pp ;;
+            pe2 <- recreate_parent_edge pp p ;;
+            let pp_is_root := Pos.eqb pp cur_root in
+            parent <- rebuild_parent ppo pe2 (negb pp_is_root) true ;;
+            if pp_is_root then b <- finish_root evict method parent ;; ret (if b then Some rt else None)
+            else ppp <- opt_get (r_ppp r) ;; update_edge ppp parent ;;; ret (Some rt)
+          else
+            parent <- rebuild_parent po pe (negb parent_is_root) false ;;
+            if parent_is_root then b <- finish_root evict method parent ;; ret (if b then Some rt else None)
+            else pp <- opt_get (r_pp r) ;; update_edge pp parent ;;; ret (Some rt)
+      end
+  | _, _ => ret None
+  end.
+
+(* what is above the in-place node q: an in-place parent, or the roots array *)
+Inductive gctx :=
+| GNode (gp : addr) (gpo : nobj) (gpch : list addr) (kidsG : list node) (fpsG : list (list addr)) (jj : nat)
+| GRoot (rs : list addr) (roots : list node) (fps : list (list addr)).
+
+Definition g_isroot (g : gctx) : bool := match g with GRoot _ _ _ => true | _ => false end.
+
+Definition gctx_ok (s : st) (method : bytes) (idx : nat) (q : addr) (Q : node) (fq : list addr) (cr : addr)
+           (gpp : option addr) (g : gctx) : Prop :=
+  match g with
+  | GNode gp gpo gpch kidsG fpsG jj =>
+      find_node s gp = Some gpo /\ find_arr s (n_arr gpo) = Some gpch /\ reps s gpch kidsG fpsG /\
+      NoDup (gp :: n_arr gpo :: List.concat fpsG) /\
+      nth_error gpch jj = Some q /\ nth_error kidsG jj = Some Q /\ nth_error fpsG jj = Some fq /\
+      (exists cq, hd_byte (nkey Q) = Some cq /\ find_child_from 0 cq kidsG = Some jj) /\
+      gpp = Some gp /\ q <> cr
+  | GRoot rs roots fps =>
+      find_arr s (s_root s) = Some rs /\ reps s rs roots fps /\ NoDup (List.concat fps) /\
+      ~ In (s_root s) (List.concat fps) /\
+      nth_error rs idx = Some q /\ nth_error roots idx = Some Q /\ nth_error fps idx = Some fq /\
+      method_index roots method = Some idx /\ q = cr
+  end.
+
+Definition gpost (s s' : st) (method : bytes) (idx : nat) (Q' : node) (g : gctx) : Prop :=
+  match g with
+  | GNode gp gpo gpch kidsG fpsG jj => inplace_res s s' gp gpo fpsG (set_nth kidsG jj Q') /\ s_root s' = s_root s
+  | GRoot rs roots fps =>
+      good 1 s' /\
+      if (is_nil (nchildren Q') && is_removable method)%bool then roots_rep s' (del_nth roots idx)
+      else roots_rep s' (set_nth roots idx (Node method (nroute Q') (nchildren Q')))
+  end.
+
+Definition rem_post (s s' : st) (method : bytes) (idx : nat) (q : addr) (qo : nobj) (fpsQ : list (list addr))
+           (kidsQ : list node) (i : nat) (Q : node) (g : gctx) (res : rem_res) (out : option route) : Prop :=
+  s_maxp s' = s_maxp s /\ s_depth s' = s_depth s /\ s_cache s' = s_cache s /\
+  match res with
+  | RemNotFound => out = None /\ inplace_res s s' q qo fpsQ kidsQ /\ s_size s' = s_size s /\ s_root s' = s_root s
+  | RemReplace n' r => out = Some r /\ inplace_res s s' q qo fpsQ (set_nth kidsQ i n') /\
+                       s_size s' = (s_size s - 1)%Z /\ s_root s' = s_root s
+  | RemSplit r => out = Some r /\ s_size s' = (s_size s - 1)%Z /\
+                  gpost s s' method idx (rebuild Q (g_isroot g) (remove_nth kidsQ i) true) g
+  | RemRoot _ _ => False
+  end.
+
+Lemma h_remove_unfold method path :
+  h_remove evict method path =
+  (idx <- h_method_index method ;;
+   match idx with
+   | None => ret None
+   | Some i => rs <- get_roots ;; rn <- opt_get (nth_error rs i) ;;
+               r <- cow_search evict rn path ;; K_rem method i r
+   end).
+Proof. reflexivity. Qed.
+
+Lemma del_nth_nil_single {A} (l : list A) i x : nth_error l i = Some x -> del_nth l i = [] -> l = [x].
+Proof.
+  destruct l as [|y [|z l]]; destruct i as [|i]; simpl; intros H E; try discriminate;
+    try (inversion H; auto; fail); try (destruct i; discriminate).
+Qed.
+
+Lemma is_nil_del {A B} (la : list A) (lb : list B) i : List.length la = List.length lb -> is_nil (del_nth la i) = is_nil (del_nth lb i).
+Proof.
+  revert lb i. induction la as [|a la IH]; intros [|b lb] [|i] L; simpl in *; try discriminate; auto.
+  destruct la, lb; simpl in *; auto; discriminate.
+Qed.
+
+(* the exact match at the child nx (index i') of n' (in place, index i of q, in place below g) *)
+Lemma rem_base method idx s q qo qch kidsQ fpsQ i n' no nch kn rn kidsn fpsn i' c nx c0 cn kq rq g cr rsx r out s' :
+  good 1 s ->
+  (* q *)
+  find_node s q = Some qo -> find_arr s (n_arr qo) = Some qch -> reps s qch kidsQ fpsQ ->
+  NoDup (q :: n_arr qo :: List.concat fpsQ) -> n_key qo = kq -> n_route qo = rq ->
+  nth_error qch i = Some n' -> nth_error kidsQ i = Some (Node kn rn kidsn) ->
+  nth_error fpsQ i = Some (n' :: n_arr no :: List.concat fpsn) ->
+  hd_byte kn = Some cn -> find_child_from 0 cn kidsQ = Some i ->
+  (* n' *)
+  find_node s n' = Some no -> n_key no = kn -> n_route no = rn ->
+  find_arr s (n_arr no) = Some nch -> reps s nch kidsn fpsn ->
+  nth_error kidsn i' = Some c -> nth_error nch i' = Some nx ->
+  hd_byte (nkey c) = Some c0 -> find_child_from 0 c0 kidsn = Some i' ->
+  (* the search result *)
+  r_matched r = nx -> r_p r = Some n' -> r_pp r = Some q ->
+  (* the method root *)
+  find_arr s (s_root s) = Some rsx -> nth_error rsx idx = Some cr -> n' <> cr ->
+  ~ In (s_root s) (q :: n_arr qo :: List.concat fpsQ) ->
+  gctx_ok s method idx q (Node kq rq kidsQ) (q :: n_arr qo :: List.concat fpsQ) cr (r_ppp r) g ->
+  K_rem method idx r s = Ok (out, s') ->
+  rem_post s s' method idx q qo fpsQ kidsQ i (Node kq rq kidsQ) g
+    (if is_exact r (List.length (nkey c)) then
+       match nroute c with Some rt => rem_exact (Node kn rn kidsn) i' c rt | None => RemNotFound end
+     else RemNotFound) out.
+Proof.
+  intros G Hq Hqch HrQ NDQ Hkq Hrq Hn' HN HfN Hcn HfcQ Hno Hnk Hnr Hnch Hrn Hc Hnx Hc0 Hfc Hm Hp Hpp
+         Hrsx Hcr Hncr NRQ GC H.
+  pose proof (good1_wf _ G) as Wf.
+  destruct (all3_nth _ _ _ _ _ _ Hrn Hc) as (nx0 & fc & Hnx0 & Hfi' & Hrepc).
+  assert (nx0 = nx) by congruence. subst nx0.
+  destruct c as [kc rc kidsc]. cbn [nkey nroute nchildren] in *.
+  pose proof Hrepc as Hrepc0. apply rep_unfold in Hrepc.
+  destruct Hrepc as (mo & mch & fpsc & Hmo & Hk & Hrr & Hmch & Hkidsc & Hfc').
+  assert (Same : inplace_res s s q qo fpsQ kidsQ) by (eapply inplace_res_refl; eauto).
+  unfold K_rem in H. rewrite Hm in H. mbind H mo2 s0 H0. apply get_node_ok in H0. destruct H0 as [-> Hmo2].
+  assert (mo2 = mo) by congruence. subst mo2. rewrite Hk, Hrr in H.
+  unfold rem_post.
+  destruct (is_exact r (List.length kc)).
+  2:{ apply ret_ok in H. destruct H as [-> ->]. spl; auto. }
+  destruct rc as [rt|].
+  2:{ apply ret_ok in H. destruct H as [-> ->]. spl; auto. }
+  cbn [bind bump_size] in H.
+  match type of H with _ ?sm = _ => set (sb := sm) in * end.
+  assert (Gb : good 1 sb) by (unfold sb; apply good_set_meta; auto).
+  assert (SAb : forall y, same_at s sb y) by (intros y; split; reflexivity).
+  mbind H mch2 s0 H0. apply get_arr_ok in H0. destruct H0 as [-> Hmch2].
+  assert (mch2 = mch) by (unfold sb, find_arr in Hmch2; simpl in Hmch2; unfold find_arr in Hmch; congruence). subst mch2.
+  (* facts about the footprints *)
+  assert (Lall : Forall (V s) (q :: n_arr qo :: List.concat fpsQ)).
+  { destruct (wf_node _ Wf _ _ Hq). constructor; auto. constructor; auto. eapply reps_lt; eauto. }
+  rewrite Forall_forall in Lall.
+  assert (DQ : NoDup (List.concat fpsQ)) by (inversion NDQ as [|? ? ? T]; inversion T; auto).
+  pose proof (NoDup_concat_nth _ _ _ DQ HfN) as NDN.
+  assert (Dn : NoDup (List.concat fpsn)) by (inversion NDN as [|? ? ? T]; inversion T; auto).
+  pose proof (NoDup_concat_nth _ _ _ Dn Hfi') as NDc. rewrite Hfc' in NDc.
+  assert (InN : forall y, In y (List.concat fpsn) -> In y (List.concat fpsQ)).
+  { intros y Hy. eapply in_lconcat_nth; eauto. simpl. auto. }
+  assert (Lc : forall y, In y fc -> y < s_next s).
+  { intros y Hy. apply Lall. right. right. apply InN. eapply in_lconcat_nth; eauto. }
+  unfold rem_exact. cbn [nkey nroute nchildren].
+  assert (Lk : List.length mch = List.length kidsc) by (destruct (all3_len _ _ _ _ Hkidsc); auto).
+  destruct mch as [|c1 [|c2 mch]]; destruct kidsc as [|g1 [|g2 kidsc]]; simpl in Lk; try discriminate.
+  - (* no children: rebuild the parent of the removed leaf *)
+    rewrite Hp in H. mbind H p0 s0 H0. apply opt_get_ok in H0. destruct H0 as [E0 ->]. inversion E0; subst p0; clear E0.
+    mbind H po s0 H0. apply get_node_ok in H0. destruct H0 as [-> Hpo].
+    assert (po = no) by (unfold sb, find_node in Hpo; simpl in Hpo; unfold find_node in Hno; congruence). subst po.
+    mbind H pe s1 H1.
+    assert (Hnob : find_node sb n' = Some no) by exact Hno.
+    assert (Hnchb : find_arr sb (n_arr no) = Some nch) by exact Hnch.
+    assert (Hrnb : reps sb nch kidsn fpsn) by (eapply reps_frame; eauto).
+    destruct (recreate_rep _ _ _ _ _ _ _ _ _ _ Gb Hnob Hnchb Hrnb Dn Hnx H1) as (Epe & N1 & Fpe & Old1 & MS1 & G1 & Rpe). clear H1.
+    assert (Nb : s_next sb = s_next s) by reflexivity.
+    mbind H rs' s2 H2. unfold get_roots, bind, get_root, get_arr in H2.
+    destruct MS1 as (A1 & A2 & A3 & A4 & A5).
+    assert (VR : s_root s < s_next s) by (apply (wf_arr _ Wf _ _ Hrsx)).
+    assert (Hrs1 : find_arr s1 (s_root s1) = Some rsx).
+    { rewrite A1. unfold sb at 1. simpl. rewrite (proj2 (Old1 _ ltac:(rewrite Nb; exact VR))). exact Hrsx. }
+    unfold find_arr in Hrs1. rewrite Hrs1 in H2. inversion H2; subst rs' s2; clear H2. fold (find_arr s1 (s_root s1)) in Hrs1.
+    mbind H cr0 s2 H2. apply opt_get_ok in H2. destruct H2 as [E0 ->]. assert (cr0 = cr) by congruence. subst cr0. clear E0.
+    assert (Epc : Pos.eqb n' cr = false) by (apply Pos.eqb_neq; auto). rewrite Epc in H.
+    mbind H pel s2 H2. apply get_arr_ok in H2. destruct H2 as [-> Hpel]. assert (pel = del_nth nch i') by congruence. subst pel.
+    assert (Enil : is_nil (del_nth nch i') = is_nil (remove_nth kidsn i')).
+    { rewrite <- del_nth_remove. apply is_nil_del. destruct (all3_len _ _ _ _ Hrn); auto. }
+    rewrite Enil in H. rewrite Hnr in H. simpl negb in H. rewrite Bool.andb_true_r in H.
+    unfold is_leaf. cbn [nroute].
+    assert (Eleaf : is_some rn = match rn with Some _ => true | None => false end) by (destruct rn; reflexivity).
+    rewrite Eleaf in H.
+    assert (Old01 : forall y, y < s_next s -> same_at s s1 y).
+    { intros y Ly. eapply same_at_trans; [apply SAb|]. apply Old1. rewrite Nb. auto. }
+    assert (Lfn : forall y, In y (List.concat fpsn) -> y < s_next s) by (intros y Hy; apply Lall; right; right; auto).
+    assert (Npe : ~ In pe (List.concat (del_nth fpsn i'))).
+    { intros Hin. apply in_concat_del_nth in Hin. apply Lfn in Hin. lia. }
+    assert (NDdel : NoDup (List.concat (del_nth fpsn i'))) by (apply NoDup_concat_del_nth; auto).
+    destruct (is_nil (remove_nth kidsn i') && negb (match rn with Some _ => true | None => false end))%bool eqn:Esplit.
+    + (* n' was a hostname/path split node: it disappears from q, which is rebuilt *)
+      apply Bool.andb_true_iff in Esplit. destruct Esplit as [En Eleaf2].
+      destruct (remove_nth kidsn i') as [|e0 el0] eqn:Eedges; [|discriminate]. rewrite Eleaf2.
+      rewrite Hpp in H. mbind H pp0 s2 H2. apply opt_get_ok in H2. destruct H2 as [E0 ->]. inversion E0; subst pp0; clear E0.
+      mbind H ppo s2 H2. apply get_node_ok in H2. destruct H2 as [-> Hppo].
+      assert (Vq : q < s_next s) by (apply Lall; simpl; auto).
+      assert (VAq : n_arr qo < s_next s) by (apply Lall; simpl; auto).
+      assert (ppo = qo) by (rewrite (proj1 (Old01 _ Vq)) in Hppo; congruence). subst ppo.
+      mbind H pe2 s2 H2.
+      assert (Hq1 : find_node s1 q = Some qo) by (rewrite (proj1 (Old01 _ Vq)); auto).
+      assert (Hqch1 : find_arr s1 (n_arr qo) = Some qch) by (rewrite (proj2 (Old01 _ VAq)); auto).
+      assert (HrQ1 : reps s1 qch kidsQ fpsQ).
+      { eapply reps_frame; [exact HrQ|]. intros y Hy. apply Old01. apply Lall. simpl. auto. }
+      destruct (recreate_rep _ _ _ _ _ _ _ _ _ _ G1 Hq1 Hqch1 HrQ1 DQ Hn' H2) as (Epe2 & N2 & Fpe2 & Old2 & MS2 & G2 & Rpe2). clear H2.
+      mbind H parent s3 H3.
+      assert (Npe2 : ~ In pe2 (List.concat (del_nth fpsQ i))).
+      { intros Hin. apply in_concat_del_nth in Hin. assert (pe2 < s_next s) by (apply Lall; simpl; auto). lia. }
+      destruct (rebuild_parent_rep _ _ (Node kq rq kidsQ) _ _ _ _ _ _ _ _ G2 Fpe2 Rpe2 (NoDup_concat_del_nth _ i DQ) Npe2 Hkq Hrq H3)
+        as (fx & Rx & NDx & Subx & Ex & N3 & Old3 & MS3 & G3 & Ownx & Inx). clear H3.
+      rewrite del_nth_remove in Rx.
+      assert (Old03 : forall y, y < s_next s -> same_at s s3 y).
+      { intros y Ly. eapply same_at_trans; [apply Old01; auto|]. eapply same_at_trans; [apply Old2; lia|]. apply Old3; lia. }
+      destruct MS2 as (B1 & B2 & B3 & B4 & B5). destruct MS3 as (C1 & C2 & C3 & C4 & C5).
+      assert (Subx' : forall y, In y fx -> In y (q :: n_arr qo :: List.concat fpsQ) \/ s_next s <= y).
+      { intros y Hy. destruct (Subx y Hy) as [->|[->|Hin]]; try (right; lia).
+        left. right. right. eapply in_concat_del_nth; eauto. }
+      destruct g as [gp gpo gpch kidsG fpsG jj|rs roots fps]; simpl in GC.
+      * (* q has an in-place parent *)
+        destruct GC as (Hgp & Hgch & HrG & NDG & Hgq & HgQ & Hgf & (cq & Hcq & HfcG) & Hppp & Hqcr).
+        assert (Eqc : Pos.eqb q cr = false) by (apply Pos.eqb_neq; auto). rewrite Eqc in *. simpl negb in *.
+        rewrite Hppp in H. mbind H g0 s4 H4. apply opt_get_ok in H4. destruct H4 as [E0 ->]. inversion E0; subst g0; clear E0.
+        mbind H u s4 H4. apply ret_ok in H. destruct H as [-> <-]. destruct u.
+        assert (Hxhd : hd_byte (nkey (rebuild (Node kq rq kidsQ) false (remove_nth kidsQ i) true)) = Some cq).
+        { cbn [nkey] in Hcq. unfold rebuild. destruct (remove_nth kidsQ i) as [|e1 [|e2 el]]; cbn [nkey nroute]; auto.
+          destruct (negb (is_leaf (Node kq rq kidsQ)) && negb false && negb (true && starts_with "/" (nkey e1)))%bool; cbn [nkey]; auto.
+          unfold merge_child. cbn [nkey]. destruct kq; [discriminate|]. exact Hcq. }
+        destruct (install s s3 gp gpo gpch kidsG fpsG jj _ _ cq parent _ fx s' G Hgp Hgch HrG NDG HgQ Hgf Hcq HfcG Old03
+                    ltac:(lia) G3 Rx Hxhd NDx Subx' H4) as (IR & MS4).
+        destruct MS4 as (D1 & D2 & D3 & D4 & D5).
+        unfold sb in *. cbn [s_size s_root s_maxp s_depth s_cache set_meta gpost] in *.
+        spl; auto; try congruence; try lia.
+      * (* q is the method root *)
+        destruct GC as (Hrs & Hrrs & NDr & NRr & Hrqq & HrQ' & Hrf & MI & Hqcr). subst cr.
+        rewrite Pos.eqb_refl in *. simpl negb in *.
+        mbind H b s4 H4.
+        assert (VRr : s_root s < s_next s) by exact VR.
+        assert (Lr : Forall (V s) (List.concat fps)) by (eapply reps_lt; [exact Wf|exact Hrrs]). rewrite Forall_forall in Lr.
+        assert (Rt3 : s_root s3 = s_root s) by (rewrite C1, B1, A1; reflexivity).
+        assert (Hrs3 : find_arr s3 (s_root s3) = Some rs) by (rewrite Rt3, (proj2 (Old03 _ VRr)); auto).
+        assert (Hrr3 : reps s3 rs roots fps).
+        { eapply reps_frame; [exact Hrrs|]. intros y Hy. apply Old03. apply Lr. auto. }
+        cbn [gpost g_isroot]. destruct (rebuild (Node kq rq kidsQ) true (remove_nth kidsQ i) true) as [pk pr pks] eqn:Ereb.
+        destruct (finish_root_rep evict evict_sub method s3 rs roots fps idx _ _ parent _ _ _ fx b s4
+                    G3 Hrs3 Hrr3 NDr ltac:(rewrite Rt3; exact NRr) MI HrQ' Hrf Rx (Ownx eq_refl) NDx) as (Eb & G4 & Z4 & P4 & D4 & Ch4 & RR); auto.
+        { intros Hin. apply Lr in Hin. unfold V in Hin. lia. }
+        { intros y Hy. destruct (Subx' y Hy) as [Hin|Ly]; auto. right. intros Hin. apply Lr in Hin. unfold V in Hin. lia. }
+        { rewrite Rt3. intros Hin. destruct (Subx' _ Hin) as [Hin'|Ly]; auto. lia. }
+        subst b. apply ret_ok in H. destruct H as [-> <-].
+        unfold sb in *. cbn [s_size s_root s_maxp s_depth s_cache set_meta gpost] in *.
+        spl; auto; try congruence; try lia.
+    + (* the parent n' keeps going with one edge less (or is merged with its last child) *)
+      assert (Epure : match remove_nth kidsn i' with
+                      | [] => if negb (match rn with Some _ => true | None => false end) then RemSplit rt
+                              else RemReplace (rebuild (Node kn rn kidsn) false (remove_nth kidsn i') false) rt
+                      | _ :: _ => RemReplace (rebuild (Node kn rn kidsn) false (remove_nth kidsn i') false) rt
+                      end = RemReplace (rebuild (Node kn rn kidsn) false (remove_nth kidsn i') false) rt).
+      { destruct (remove_nth kidsn i'); auto. simpl in Esplit. rewrite Esplit. auto. }
+      rewrite Epure. clear Epure.
+      mbind H parent s3 H3.
+      destruct (rebuild_parent_rep _ _ (Node kn rn kidsn) _ _ _ _ _ _ _ _ G1 Fpe Rpe NDdel Npe Hnk Hnr H3)
+        as (fx & Rx & NDx & Subx & Ex & N3 & Old3 & MS3 & G3 & Ownx & Inx). clear H3.
+      rewrite del_nth_remove in Rx. simpl negb in Rx.
+      rewrite Hpp in H. mbind H pp0 s4 H4. apply opt_get_ok in H4. destruct H4 as [E0 ->]. inversion E0; subst pp0; clear E0.
+      mbind H u s4 H4. apply ret_ok in H. destruct H as [-> <-]. destruct u.
+      assert (Old03 : forall y, y < s_next s -> same_at s s3 y).
+      { intros y Ly. eapply same_at_trans; [apply Old01; auto|]. apply Old3; lia. }
+      assert (Hxhd : hd_byte (nkey (rebuild (Node kn rn kidsn) false (remove_nth kidsn i') false)) = Some cn).
+      { unfold rebuild. destruct (remove_nth kidsn i') as [|e1 [|e2 el]]; cbn [nkey nroute]; auto.
+        destruct (negb (is_leaf (Node kn rn kidsn)) && negb false && negb (false && starts_with "/" (nkey e1)))%bool; cbn [nkey]; auto.
+        unfold merge_child. cbn [nkey]. destruct kn; [discriminate|]. exact Hcn. }
+      destruct (install s s3 q qo qch kidsQ fpsQ i _ _ cn parent _ fx s' G Hq Hqch HrQ NDQ HN HfN Hcn HfcQ Old03
+                  ltac:(lia) G3 Rx Hxhd NDx) as (IR & MS4); auto.
+      { intros y Hy. destruct (Subx y Hy) as [->|[->|Hin]]; try (right; lia).
+        left. right. right. eapply in_concat_del_nth; eauto. }
+      destruct MS3 as (C1 & C2 & C3 & C4 & C5). destruct MS4 as (D1 & D2 & D3 & D4 & D5).
+      unfold sb in *. cbn [s_size s_root s_maxp s_depth s_cache set_meta] in *.
+      spl; auto; try congruence; try lia.
+  - (* one child: merge it into the removed node's place *)
+    destruct fpsc as [|fg [|fg2 fpsc]]; simpl in Hkidsc; try tauto.
+    destruct Hkidsc as [Hg1 _]. destruct g1 as [kg rg kidsg]. pose proof Hg1 as Hg10. apply rep_unfold in Hg1.
+    destruct Hg1 as (co & gch & fpsg & Hco & Hkg & Hrg & Hgch & Hkidsg & Hfg).
+    mbind H co2 s1 H1. apply get_node_ok in H1. destruct H1 as [-> Hco2].
+    assert (co2 = co) by (unfold sb, find_node in Hco2; simpl in Hco2; unfold find_node in Hco; congruence). subst co2.
+    mbind H x s1 H1. rewrite Hkg, Hrg in H1.
+    assert (Hgchb : find_arr sb (n_arr co) = Some gch) by exact Hgch.
+    assert (Hkidsgb : reps sb gch kidsg fpsg) by (eapply reps_frame; eauto).
+    destruct (nnfr_rep _ _ _ _ _ _ _ _ _ Gb Hgchb Hkidsgb H1) as (Ex & Nx & Rx & Oldx & MSx & Gx). clear H1.
+    rewrite Hp in H. mbind H p0 s2 H2. apply opt_get_ok in H2. destruct H2 as [E0 ->]. inversion E0; subst p0; clear E0.
+    mbind H u s2 H2. apply ret_ok in H. destruct H as [-> <-]. destruct u.
+    simpl in Hfc', NDc. rewrite app_nil_r in Hfc', NDc. rewrite Hfg in NDc.
+    assert (NDx : NoDup (x :: n_arr co :: List.concat fpsg)).
+    { inversion NDc as [|? ? _ T]; inversion T as [|? ? _ T2]. inversion T2 as [|? ? M1 M2].
+      constructor; auto. intros Hin. assert (x < s_next s).
+      { apply Lc. rewrite Hfc', Hfg. right. right. right. auto. } unfold sb in Ex. simpl in Ex. lia. }
+    assert (NDn' : NoDup (n' :: n_arr no :: List.concat fpsn)) by exact NDN.
+    assert (Hrnb : reps sb nch kidsn fpsn) by (eapply reps_frame; eauto).
+    destruct (install sb s1 n' no nch kidsn fpsn i' (Node kc (Some rt) [Node kg rg kidsg]) fc c0 x _ _ s' Gb Hno Hnch
+                Hrnb NDn' Hc Hfi' Hc0 Hfc Oldx ltac:(lia) Gx Rx) as (IR & MS2); auto.
+    { cbn [nkey]. destruct kc; [discriminate|]. exact Hc0. }
+    { intros y [<-|Hin]; [right; lia|]. left. rewrite Hfc', Hfg. right. right. right. auto. }
+    assert (HqB : find_node sb q = Some qo) by exact Hq.
+    assert (HqchB : find_arr sb (n_arr qo) = Some qch) by exact Hqch.
+    assert (HrQB : reps sb qch kidsQ fpsQ) by (eapply reps_frame; eauto).
+    pose proof (ascend sb s' q qo qch kidsQ fpsQ i n' no fpsn kn rn kidsn _ Gb HqB HqchB HrQB NDQ Hn' HN HfN Hnk Hnr IR) as IRq.
+    assert (IRs : inplace_res s s' q qo fpsQ (set_nth kidsQ i (Node kn rn (set_nth kidsn i' (Node (kc ++ kg) rg kidsg))))).
+    { apply (inplace_res_pre s sb s' q qo fpsQ fpsQ _ []); auto.
+      - apply frame_heap_same. unfold sb, heap_same. simpl. auto.
+      - intros y [].
+      - intros y Hy. auto. }
+    destruct MSx as (C1 & C2 & C3 & C4 & C5). destruct MS2 as (D1 & D2 & D3 & D4 & D5).
+    unfold merge_child. cbn [nkey nroute nchildren]. rewrite <- set_nth_replace.
+    unfold sb in *. cbn [s_size s_root s_maxp s_depth s_cache set_meta] in *.
+    spl; auto; try congruence; try lia.
+  - (* several children: the node stays, without its route *)
+    mbind H x s1 H1.
+    assert (Hmchb : find_arr sb (n_arr mo) = Some (c1 :: c2 :: mch)) by exact Hmch.
+    assert (Hkidscb : reps sb (c1 :: c2 :: mch) (g1 :: g2 :: kidsc) fpsc) by (eapply reps_frame; eauto).
+    destruct (nnfr_rep _ _ _ _ _ _ _ _ _ Gb Hmchb Hkidscb H1) as (Ex & Nx & Rx & Oldx & MSx & Gx). clear H1.
+    rewrite Hp in H. mbind H p0 s2 H2. apply opt_get_ok in H2. destruct H2 as [E0 ->]. inversion E0; subst p0; clear E0.
+    mbind H u s2 H2. apply ret_ok in H. destruct H as [-> <-]. destruct u.
+    assert (NDx : NoDup (x :: n_arr mo :: List.concat fpsc)).
+    { inversion NDc as [|? ? M1 M2]. constructor; auto. intros Hin. assert (x < s_next s).
+      { apply Lc. rewrite Hfc'. right. auto. } unfold sb in Ex. simpl in Ex. lia. }
+    assert (NDn' : NoDup (n' :: n_arr no :: List.concat fpsn)) by exact NDN.
+    assert (Hrnb : reps sb nch kidsn fpsn) by (eapply reps_frame; eauto).
+    destruct (install sb s1 n' no nch kidsn fpsn i' (Node kc (Some rt) (g1 :: g2 :: kidsc)) fc c0 x _ _ s' Gb Hno Hnch
+                Hrnb NDn' Hc Hfi' Hc0 Hfc Oldx ltac:(lia) Gx Rx) as (IR & MS2); auto.
+    { intros y [<-|Hin]; [right; lia|]. left. rewrite Hfc'. right. auto. }
+    assert (HqB : find_node sb q = Some qo) by exact Hq.
+    assert (HqchB : find_arr sb (n_arr qo) = Some qch) by exact Hqch.
+    assert (HrQB : reps sb qch kidsQ fpsQ) by (eapply reps_frame; eauto).
+    pose proof (ascend sb s' q qo qch kidsQ fpsQ i n' no fpsn kn rn kidsn _ Gb HqB HqchB HrQB NDQ Hn' HN HfN Hnk Hnr IR) as IRq.
+    assert (IRs : inplace_res s s' q qo fpsQ (set_nth kidsQ i (Node kn rn (set_nth kidsn i' (Node kc None (g1 :: g2 :: kidsc)))))).
+    { apply (inplace_res_pre s sb s' q qo fpsQ fpsQ _ []); auto.
+      - apply frame_heap_same. unfold sb, heap_same. simpl. auto.
+      - intros y [].
+      - intros y Hy. auto. }
+    destruct MSx as (C1 & C2 & C3 & C4 & C5). destruct MS2 as (D1 & D2 & D3 & D4 & D5).
+    rewrite <- set_nth_replace.
+    unfold sb in *. cbn [s_size s_root s_maxp s_depth s_cache set_meta] in *.
+    spl; auto; try congruence; try lia.
+Qed.
+
+(* the context above q after a relink inside q (q's footprint block changed, q itself did not) *)
+Lemma gctx_step method idx s s1 q qo qch1 kq rq kidsQ fpsQ fpsQ1 cr gpp g :
+  good 1 s -> good 1 s1 ->
+  gctx_ok s method idx q (Node kq rq kidsQ) (q :: n_arr qo :: List.concat fpsQ) cr gpp g ->
+  frame s s1 [n_arr qo] -> sub_fresh s (List.concat fpsQ) (List.concat fpsQ1) -> meta_same s s1 ->
+  find_node s1 q = Some qo -> n_key qo = kq -> n_route qo = rq ->
+  find_arr s1 (n_arr qo) = Some qch1 -> reps s1 qch1 kidsQ fpsQ1 ->
+  NoDup (q :: n_arr qo :: List.concat fpsQ1) ->
+  exists g1, gctx_ok s1 method idx q (Node kq rq kidsQ) (q :: n_arr qo :: List.concat fpsQ1) cr gpp g1 /\
+             g_isroot g1 = g_isroot g /\
+             (forall s' Q', gpost s1 s' method idx Q' g1 -> gpost s s' method idx Q' g).
+Proof.
+  intros G G1 GC Fr SF MS Hq1 Hkq Hrq Hqch1 HrQ1 NDQ1.
+  pose proof (good1_wf _ G) as Wf.
+  set (fq := q :: n_arr qo :: List.concat fpsQ) in *. set (fq1 := q :: n_arr qo :: List.concat fpsQ1).
+  assert (Sub : forall y, In y fq1 -> In y fq \/ s_next s <= y).
+  { intros y [<-|[<-|Hy]]; [left; simpl; auto|left; simpl; auto|]. destruct (SF y Hy); [left; simpl; auto|auto]. }
+  assert (Rq1 : rep s1 q (Node kq rq kidsQ) fq1).
+  { apply rep_unfold. exists qo, qch1, fpsQ1. spl; auto. }
+  destruct g as [gp gpo gpch kidsG fpsG jj|rs roots fps]; simpl in GC.
+  - destruct GC as (Hgp & Hgch & HrG & NDG & Hgq & HgQ & Hgf & Hcq & Hppp & Hqcr).
+    assert (Lall : Forall (V s) (gp :: n_arr gpo :: List.concat fpsG)).
+    { destruct (wf_node _ Wf _ _ Hgp). constructor; auto. constructor; auto. eapply reps_lt; eauto. }
+    rewrite Forall_forall in Lall.
+    assert (Np : ~ In gp (n_arr gpo :: List.concat fpsG)) by (inversion NDG; auto).
+    assert (NA : ~ In (n_arr gpo) (List.concat fpsG)) by (inversion NDG as [|? ? ? T]; inversion T; auto).
+    assert (DG : NoDup (List.concat fpsG)) by (inversion NDG as [|? ? ? T]; inversion T; auto).
+    assert (InQ : forall y, In y fq -> In y (List.concat fpsG)) by (intros y Hy; eapply in_lconcat_nth; eauto).
+    assert (AqIn : In (n_arr qo) (List.concat fpsG)) by (apply InQ; simpl; auto).
+    assert (SA : forall y, In y (gp :: n_arr gpo :: List.concat fpsG) -> y <> n_arr qo -> same_at s s1 y).
+    { intros y Hy Hne. apply (frame_old s s1 [n_arr qo] y Fr).
+      - apply Lall. auto.
+      - intros [E|[]]. congruence. }
+    exists (GNode gp gpo gpch kidsG (set_nth fpsG jj fq1) jj). simpl.
+    assert (E1 : find_node s1 gp = Some gpo).
+    { rewrite (proj1 (SA gp ltac:(simpl; auto) ltac:(intros E; apply Np; right; rewrite E; auto))). auto. }
+    assert (E2 : find_arr s1 (n_arr gpo) = Some gpch).
+    { rewrite (proj2 (SA _ ltac:(simpl; auto) ltac:(intros E; apply NA; rewrite E; auto))). auto. }
+    assert (E3 : reps s1 gpch kidsG (set_nth fpsG jj fq1)).
+    { rewrite <- (set_nth_same gpch jj q Hgq). rewrite <- (set_nth_same kidsG jj _ HgQ).
+      eapply all3_set_frame; [exact HrG| |exact Rq1].
+      intros k x y z Hne Hx Hy Hz Hrep. eapply rep_frame; [exact Hrep|]. intros a Ha. apply SA.
+      - right. right. eapply in_lconcat_nth; eauto.
+      - intros ->. exact (NoDup_concat_disj _ _ _ _ _ _ DG Hne Hz Hgf Ha ltac:(simpl; auto)). }
+    assert (Sub2 : forall y, In y (List.concat (set_nth fpsG jj fq1)) -> In y (List.concat fpsG) \/ s_next s <= y).
+    { intros y Hy. destruct (in_concat_set_nth _ _ _ _ Hy) as [Hi|Hi]; auto. destruct (Sub y Hi); auto. }
+    assert (E4 : NoDup (gp :: n_arr gpo :: List.concat (set_nth fpsG jj fq1))).
+    { assert (NDc : NoDup (List.concat (set_nth fpsG jj fq1))).
+      { eapply NoDup_concat_set_nth; eauto. intros y Hy. destruct (Sub y Hy); auto.
+        right. intros Hin. assert (V s y) by (apply Lall; simpl; auto). unfold V in H0. lia. }
+      constructor; [|constructor; auto].
+      - intros [Hi|Hi]; [apply Np; simpl; auto|]. destruct (Sub2 _ Hi) as [Hi'|Hi']; [apply Np; simpl; auto|].
+        assert (V s gp) by (apply Lall; simpl; auto). unfold V in H. lia.
+      - intros Hi. destruct (Sub2 _ Hi) as [Hi'|Hi']; auto.
+        assert (V s (n_arr gpo)) by (apply Lall; simpl; auto). unfold V in H. lia. }
+    split; [spl; auto; eapply nth_set_nth_eq; eauto|]. split; auto.
+    intros s' Q' [IR Rt]. destruct MS as (M1 & _). split; [|congruence].
+    apply (inplace_res_pre s s1 s' gp gpo fpsG (set_nth fpsG jj fq1) _ [n_arr qo] Fr); auto.
+    intros y [<-|[]]. simpl. auto.
+  - destruct GC as (Hrs & Hrr & NDr & NRr & Hrqq & HrQ' & Hrf & MI & Hqcr).
+    assert (Lall : Forall (V s) (List.concat fps)) by (eapply reps_lt; eauto). rewrite Forall_forall in Lall.
+    destruct (wf_arr _ Wf _ _ Hrs) as [VR _].
+    assert (InQ : forall y, In y fq -> In y (List.concat fps)) by (intros y Hy; eapply in_lconcat_nth; eauto).
+    destruct MS as (M1 & M2 & M3 & M4 & M5).
+    assert (SA : forall y, y < s_next s -> y <> n_arr qo -> same_at s s1 y).
+    { intros y Hy Hne. apply (frame_old s s1 [n_arr qo] y Fr); auto. intros [E|[]]. congruence. }
+    exists (GRoot rs roots (set_nth fps idx fq1)). simpl.
+    assert (NRq : s_root s <> n_arr qo) by (intros E; apply NRr; rewrite E; apply InQ; simpl; auto).
+    assert (E1 : find_arr s1 (s_root s1) = Some rs) by (rewrite M1, (proj2 (SA _ VR NRq)); auto).
+    assert (E2 : reps s1 rs roots (set_nth fps idx fq1)).
+    { rewrite <- (set_nth_same rs idx q Hrqq). rewrite <- (set_nth_same roots idx _ HrQ').
+      eapply all3_set_frame; [exact Hrr| |exact Rq1].
+      intros k x y z Hne Hx Hy Hz Hrep. eapply rep_frame; [exact Hrep|]. intros a Ha. apply SA.
+      - apply Lall. eapply in_lconcat_nth; eauto.
+      - intros ->. exact (NoDup_concat_disj _ _ _ _ _ _ NDr Hne Hz Hrf Ha ltac:(simpl; auto)). }
+    assert (Sub2 : forall y, In y (List.concat (set_nth fps idx fq1)) -> In y (List.concat fps) \/ s_next s <= y).
+    { intros y Hy. destruct (in_concat_set_nth _ _ _ _ Hy) as [Hi|Hi]; auto. destruct (Sub y Hi); auto. }
+    assert (E3 : NoDup (List.concat (set_nth fps idx fq1))).
+    { eapply NoDup_concat_set_nth; eauto. intros y Hy. destruct (Sub y Hy); auto.
+      right. intros Hin. apply Lall in Hin. unfold V in Hin. lia. }
+    assert (E4 : ~ In (s_root s1) (List.concat (set_nth fps idx fq1))).
+    { rewrite M1. intros Hi. destruct (Sub2 _ Hi); auto. unfold V in VR. lia. }
+    split; [spl; auto; eapply nth_set_nth_eq; eauto|]. split; auto.
+Qed.
+
+Definition rem_sim_stmt (method : bytes) (idx : nat) (fuel : nat) : Prop :=
+  forall s q qo qch kidsQ fpsQ i cur n fpn cn kq rq g cr rsx pp ppp rest from cm depth out s',
+  good 1 s ->
+  find_node s q = Some qo -> find_arr s (n_arr qo) = Some qch -> reps s qch kidsQ fpsQ ->
+  NoDup (q :: n_arr qo :: List.concat fpsQ) -> n_key qo = kq -> n_route qo = rq ->
+  nth_error kidsQ i = Some n -> nth_error qch i = Some cur -> nth_error fpsQ i = Some fpn ->
+  hd_byte (nkey n) = Some cn -> find_child_from 0 cn kidsQ = Some i ->
+  find_arr s (s_root s) = Some rsx -> nth_error rsx idx = Some cr -> ~ In cr (List.concat fpsQ) ->
+  ~ In (s_root s) (q :: n_arr qo :: List.concat fpsQ) ->
+  gctx_ok s method idx q (Node kq rq kidsQ) (q :: n_arr qo :: List.concat fpsQ) cr pp g ->
+  rest <> [] ->
+  (r <- cow_loop evict fuel cur (Some q) pp ppp rest from cm (List.length (nkey n)) depth ;; K_rem method idx r) s = Ok (out, s') ->
+  rem_post s s' method idx q qo fpsQ kidsQ i (Node kq rq kidsQ) g (rem fuel n false rest) out.
+
+Lemma rem_below method idx f s1 q qo qch1 kidsQ fpsQ1 i n' no nch kn rn kidsn fpsn cn kq rq g cr rsx
+      i' nx c1 fc1 c rest0 gpp cm depth out s' :
+  rem_sim_stmt method idx f ->
+  good 1 s1 ->
+  find_node s1 q = Some qo -> find_arr s1 (n_arr qo) = Some qch1 -> reps s1 qch1 kidsQ fpsQ1 ->
+  NoDup (q :: n_arr qo :: List.concat fpsQ1) -> n_key qo = kq -> n_route qo = rq ->
+  nth_error qch1 i = Some n' -> nth_error kidsQ i = Some (Node kn rn kidsn) ->
+  nth_error fpsQ1 i = Some (n' :: n_arr no :: List.concat fpsn) ->
+  hd_byte kn = Some cn -> find_child_from 0 cn kidsQ = Some i ->
+  find_node s1 n' = Some no -> n_key no = kn -> n_route no = rn ->
+  find_arr s1 (n_arr no) = Some nch -> reps s1 nch kidsn fpsn ->
+  nth_error kidsn i' = Some c1 -> nth_error nch i' = Some nx -> nth_error fpsn i' = Some fc1 ->
+  find_child_from 0 c kidsn = Some i' ->
+  find_arr s1 (s_root s1) = Some rsx -> nth_error rsx idx = Some cr -> ~ In cr (List.concat fpsQ1) ->
+  ~ In (s_root s1) (q :: n_arr qo :: List.concat fpsQ1) ->
+  gctx_ok s1 method idx q (Node kq rq kidsQ) (q :: n_arr qo :: List.concat fpsQ1) cr gpp g ->
+  match key_of nx s1 with
+  | Ok (key, s2) =>
+      let '(n, rest', brk) := match_key key (c :: rest0) in
+      if brk then K_rem method idx
+                    {| r_matched := nx; r_p := Some n'; r_pp := Some q; r_ppp := gpp; r_rest := rest'; r_from := c :: rest0;
+                       r_cm := cm + n; r_cmin := n; r_depth := S depth |} s2
+      else (r <- cow_loop evict f nx (Some n') (Some q) gpp rest' (c :: rest0) (cm + n) n (S depth) ;; K_rem method idx r) s2
+  | Panic => Panic | Oof => Oof
+  end = Ok (out, s') ->
+  rem_post s1 s' method idx q qo fpsQ1 kidsQ i (Node kq rq kidsQ) g (rem_child f (Node kn rn kidsn) i' c1 (c :: rest0)) out.
+Proof.
+  intros IH G1 Hq Hqch HrQ NDQ Hkq Hrq Hn' HN HfN Hcn HfcQ Hno Hnk Hnr Hnch Hrn Hc1 Hnx Hfc1 Hfi Hrsx Hcr Ncr NRQ GC H.
+  destruct (all3_nth _ _ _ _ _ _ Hrn Hc1) as (nx1 & fc1' & Hnx1 & Hfc1'' & Hrepc1).
+  assert (nx1 = nx) by congruence. subst nx1. assert (fc1' = fc1) by congruence. subst fc1'.
+  destruct (rep_key _ _ _ _ Hrepc1) as (nxo & Hnxo & Knx & Rnx).
+  assert (KO : key_of nx s1 = Ok (nkey c1, s1)).
+  { unfold key_of, bind, get_node. unfold find_node in Hnxo. rewrite Hnxo. unfold ret. rewrite Knx. auto. }
+  rewrite KO in H.
+  destruct (match_key (nkey c1) (c :: rest0)) as [[m rest'] brk] eqn:MK.
+  destruct (match_key_spec _ _ _ _ _ MK) as (Em & Er & Lm1 & Lm2 & Bt & Bf).
+  assert (Hc0' : hd_byte (nkey c1) = Some c) by (eapply find_child_hd; eauto).
+  assert (Same : inplace_res s1 s1 q qo fpsQ1 kidsQ) by (eapply inplace_res_refl; eauto).
+  assert (DQ : NoDup (List.concat fpsQ1)) by (inversion NDQ as [|? ? ? T]; inversion T; auto).
+  pose proof (NoDup_concat_nth _ _ _ DQ HfN) as NDN.
+  assert (InN : forall y, In y (n' :: n_arr no :: List.concat fpsn) -> In y (List.concat fpsQ1)) by (intros y Hy; eapply in_lconcat_nth; eauto).
+  assert (Hncr : n' <> cr) by (intros E; apply Ncr; apply InN; rewrite E; simpl; auto).
+  unfold rem_child. cbn [nkey nroute nchildren]. rewrite <- Em.
+  destruct brk.
+  - destruct (Bt eq_refl) as [B1 B2].
+    unfold K_rem in H. cbn [r_matched] in H. mbind H mo s2 H2. apply get_node_ok in H2. destruct H2 as [-> _].
+    assert (Hrest' : rest' <> []) by (rewrite Er; apply skipn_len_lt; auto).
+    destruct rest' as [|x rest'']; [congruence|]. unfold is_exact in H. cbn [r_rest] in H.
+    apply ret_ok in H. destruct H as [-> ->].
+    assert (E1 : Nat.eqb m (List.length (nkey c1)) = false) by (apply Nat.eqb_neq; lia).
+    rewrite E1. unfold rem_post. spl; auto.
+  - destruct rest' as [|x rest''].
+    + assert (Em2 : m = List.length (c :: rest0)) by (symmetry in Er; apply skipn_nil_iff in Er; auto).
+      destruct f as [|f']; [simpl in H; discriminate|]. simpl in H.
+      unfold bind at 1 in H. unfold ret at 1 in H.
+      match type of H with K_rem _ _ ?rr _ = _ =>
+        pose proof (rem_base method idx s1 q qo qch1 kidsQ fpsQ1 i n' no nch kn rn kidsn fpsn i' c1 nx c cn kq rq g cr rsx rr out s'
+                      G1 Hq Hqch HrQ NDQ Hkq Hrq Hn' HN HfN Hcn HfcQ Hno Hnk Hnr Hnch Hrn Hc1 Hnx Hc0' Hfi eq_refl eq_refl eq_refl
+                      Hrsx Hcr Hncr NRQ GC H) as P
+      end.
+      unfold is_exact in P. cbn [r_rest r_cmin] in P.
+      assert (E2 : Nat.eqb m (List.length (c :: rest0)) = true) by (apply Nat.eqb_eq; lia).
+      rewrite E2. destruct (Nat.eqb m (List.length (nkey c1))); exact P.
+    + destruct (Bf eq_refl) as [B|B].
+      2:{ exfalso. assert (skipn m (c :: rest0) = []) by (apply skipn_nil_iff; auto). congruence. }
+      assert (E1 : Nat.eqb m (List.length (nkey c1)) = true) by (apply Nat.eqb_eq; lia).
+      assert (E2 : Nat.eqb m (List.length (c :: rest0)) = false).
+      { apply Nat.eqb_neq. intros E. assert (skipn m (c :: rest0) = []) by (apply skipn_nil_iff; auto; lia). congruence. }
+      rewrite E1, E2. rewrite <- Er. rewrite B in H.
+      assert (NRn : ~ In (s_root s1) (n' :: n_arr no :: List.concat fpsn)).
+      { intros Hin. apply NRQ. right. right. apply InN. auto. }
+      assert (Ncrn : ~ In cr (List.concat fpsn)) by (intros Hin; apply Ncr; apply InN; simpl; auto).
+      assert (GC' : gctx_ok s1 method idx n' (Node kn rn kidsn) (n' :: n_arr no :: List.concat fpsn) cr (Some q)
+                      (GNode q qo qch1 kidsQ fpsQ1 i)).
+      { simpl. spl; auto. exists cn. auto. }
+      pose proof (IH s1 n' no nch kidsn fpsn i' nx c1 fc1 c kn rn (GNode q qo qch1 kidsQ fpsQ1 i) cr rsx (Some q) gpp
+                    (x :: rest'') (c :: rest0) (cm + List.length (nkey c1))%nat (S depth) out s'
+                    G1 Hno Hnch Hrn NDN Hnk Hnr Hc1 Hnx Hfc1 Hc0' Hfi Hrsx Hcr Ncrn NRn GC' ltac:(discriminate) H)
+        as (P1 & P2 & P3 & P).
+      assert (Up : forall kids', inplace_res s1 s' n' no fpsn kids' ->
+                   inplace_res s1 s' q qo fpsQ1 (set_nth kidsQ i (Node kn rn kids'))).
+      { intros kids' IR. eapply ascend; eauto. }
+      unfold rem_post. split; auto. split; auto. split; auto.
+      destruct (rem f c1 false (x :: rest'')) as [|c' r|r|? ?].
+      * destruct P as (-> & IR & Z & Rt). pose proof (Up _ IR) as X. rewrite (set_nth_same kidsQ i _ HN) in X. spl; auto.
+      * destruct P as (-> & IR & Z & Rt). pose proof (Up _ IR) as X. rewrite <- set_nth_replace. spl; auto.
+      * destruct P as (-> & Z & IR & Rt). cbn [g_isroot] in IR. spl; auto.
+      * destruct P.
+Qed.
+
+Lemma rem_sim method idx fuel : rem_sim_stmt method idx fuel.
+Proof.
+  induction fuel as [|f IH]; intros s q qo qch kidsQ fpsQ i cur n fpn cn kq rq g cr rsx pp ppp rest from cm depth out s'
+    G Hq Hqch HrQ NDQ Hkq Hrq HN Hcur HfN Hcn HfcQ Hrsx Hcr Ncr NRQ GC Hne H.
+  - simpl in H. discriminate.
+  - destruct rest as [|c rest0]; [congruence|]. rewrite cow_loop_unfold in H.
+    pose proof (good1_wf _ G) as Wf.
+    destruct (all3_nth _ _ _ _ _ _ HrQ HN) as (cur0 & fpn0 & Hc0 & Hf0 & Hrep).
+    assert (cur0 = cur) by congruence. assert (fpn0 = fpn) by congruence. subst cur0 fpn0.
+    destruct n as [kn rn kidsn].
+    destruct (get_edge_rep _ _ _ _ _ _ c Hrep) as (co & cch & fpsn & Hco & Hcch & Hkids & GE).
+    rewrite GE in H. rewrite rem_step. unfold find_child in *. cbn [nchildren nkey nroute] in *.
+    assert (Same : inplace_res s s q qo fpsQ kidsQ) by (eapply inplace_res_refl; eauto).
+    destruct (find_child_from 0 c kidsn) as [i'|] eqn:Hfi.
+    2:{ unfold K_rem in H. cbn [r_matched] in H. mbind H mo s2 H2. apply get_node_ok in H2. destruct H2 as [-> _].
+        unfold is_exact in H. cbn [r_rest] in H. apply ret_ok in H. destruct H as [-> ->].
+        unfold rem_post. spl; auto. }
+    destruct (nth_error cch i') as [nx|] eqn:Hnx.
+    2:{ destruct (nth_error kidsn i') as [cc|] eqn:Hcc.
+        - destruct (all3_nth _ _ _ _ _ _ Hkids Hcc) as (? & ? & Hx & _). congruence.
+        - exfalso. apply find_child_from_lt in Hfi. apply nth_error_None in Hcc. lia. }
+    destruct (all3_nth_a _ _ _ _ _ _ Hkids Hnx) as (c1 & fc & Hc1 & Hfc1 & Hrepc).
+    rewrite Hc1.
+    destruct (relink evict q cur s) as [[n' s1]| |] eqn:RL; try discriminate.
+    destruct (descend evict evict_sub s q qo qch kidsQ fpsQ i cur (Node kn rn kidsn) fpn cn n' s1
+                G Hq Hqch HrQ NDQ HN Hcur HfN Hcn HfcQ RL)
+      as (co2 & no & cch2 & fpsn2 & Hco2 & Hcch2 & Hkids2 & Hfpn & Hn' & Hk' & Hr' & Hnch' & Hkids' & Hq1 & Hqch1 & HrQ1 & NDQ1 & Fr1 & SF1 & MS1 & G1).
+    assert (co2 = co) by congruence. subst co2. assert (cch2 = cch) by congruence. subst cch2.
+    cbn [nchildren nkey nroute] in *.
+    destruct (all3_nth _ _ _ _ _ _ Hkids' Hc1) as (nx1 & fc1 & Hnx1 & Hfc1' & Hrepc1).
+    assert (nx1 = nx) by congruence. subst nx1.
+    set (fpsQ1 := set_nth fpsQ i (n' :: n_arr no :: List.concat fpsn2)) in *.
+    assert (SFQ : sub_fresh s (List.concat fpsQ) (List.concat fpsQ1)).
+    { intros y Hy. destruct (in_concat_set_nth _ _ _ _ Hy) as [Hi|Hi]; auto.
+      destruct (SF1 y Hi) as [Hi'|Hi']; auto. left. eapply in_lconcat_nth; eauto. }
+    destruct (gctx_step method idx s s1 q qo (set_nth qch i n') kq rq kidsQ fpsQ fpsQ1 cr pp g G G1 GC Fr1 SFQ MS1 Hq1 Hkq Hrq Hqch1 HrQ1 NDQ1)
+      as (g1 & GC1 & Eg1 & Gback).
+    destruct MS1 as (M1 & M2 & M3 & M4 & M5).
+    destruct (wf_arr _ Wf _ _ Hrsx) as [VR Frsx].
+    assert (Vcr : cr < s_next s) by (rewrite Forall_forall in Frsx; apply Frsx; eapply nth_error_In; eauto).
+    assert (Hrsx1 : find_arr s1 (s_root s1) = Some rsx).
+    { rewrite M1. rewrite (proj2 (frame_old _ _ _ (s_root s) Fr1 VR ltac:(intros [E|[]]; apply NRQ; rewrite <- E; simpl; auto))). auto. }
+    assert (Ncr1 : ~ In cr (List.concat fpsQ1)).
+    { intros Hin. destruct (SFQ _ Hin); auto. lia. }
+    assert (NRQ1 : ~ In (s_root s1) (q :: n_arr qo :: List.concat fpsQ1)).
+    { rewrite M1. intros [E|[E|Hin]]; [apply NRQ; simpl; auto|apply NRQ; simpl; auto|].
+      destruct (SFQ _ Hin) as [Hi|Hi]; [apply NRQ; simpl; auto|]. unfold V in VR. lia. }
+    pose proof (rem_below method idx f s1 q qo (set_nth qch i n') kidsQ fpsQ1 i n' no cch kn rn kidsn fpsn2 cn kq rq g1 cr rsx
+                  i' nx c1 fc1 c rest0 pp cm depth out s' IH G1 Hq1 Hqch1 HrQ1 NDQ1 Hkq Hrq
+                  ltac:(eapply nth_set_nth_eq; eauto) HN ltac:(eapply nth_set_nth_eq; eauto) Hcn HfcQ
+                  Hn' Hk' Hr' Hnch' Hkids' Hc1 Hnx Hfc1' Hfi Hrsx1 Hcr Ncr1 NRQ1 GC1 H) as (P1 & P2 & P3 & P).
+    assert (Back : forall kids', inplace_res s1 s' q qo fpsQ1 kids' -> inplace_res s s' q qo fpsQ kids').
+    { intros kids' IR. apply (inplace_res_pre s s1 s' q qo fpsQ fpsQ1 _ [n_arr qo] Fr1); auto.
+      intros y [<-|[]]. simpl. auto. }
+    unfold rem_post. split; [congruence|]. split; [congruence|]. split; [congruence|].
+    destruct (rem_child f (Node kn rn kidsn) i' c1 (c :: rest0)) as [|c' r|r|? ?].
+    + destruct P as (-> & IR & Z & Rt). spl; auto; congruence.
+    + destruct P as (-> & IR & Z & Rt). spl; auto; congruence.
+    + destruct P as (-> & Z & GP). rewrite Eg1 in GP. spl; auto; congruence.
+    + destruct P.
+Qed.
+
+End Rem.
+
+(* ---------- remove at the roots level ---------- *)
+Definition rem_exact_root (n : node) (i : nat) (c : node) (r : route) : rem_res :=
+  let updn (c' : node) := Node (nkey n) (nroute n) (replace_nth (nchildren n) i c') in
+  match nchildren c with
+  | _ :: _ :: _ => RemReplace (updn (Node (nkey c) None (nchildren c))) r
+  | [g] => RemReplace (updn (merge_child c g)) r
+  | [] => RemRoot (rebuild n true (remove_nth (nchildren n) i) false) r
+  end.
+
+Definition rem_child_root (f : nat) (n : node) (i : nat) (c : node) (rest : bytes) : rem_res :=
+  let lcp := List.length (common_prefix rest (nkey c)) in
+  let updn (c' : node) := Node (nkey n) (nroute n) (replace_nth (nchildren n) i c') in
+  if Nat.eqb lcp (List.length (nkey c)) then
+    if Nat.eqb lcp (List.length rest) then
+      match nroute c with
+      | None => RemNotFound
+      | Some r => rem_exact_root n i c r
+      end
+    else
+      match rem f c false (skipn lcp rest) with
+      | RemNotFound => RemNotFound
+      | RemReplace c' r => RemReplace (updn c') r
+      | RemSplit r => RemRoot (rebuild n true (remove_nth (nchildren n) i) true) r
+      | RemRoot _ _ => RemNotFound
+      end
+  else RemNotFound.
+
+Lemma rem_step_root f k r kids c0 rest0 :
+  rem (S f) (Node k r kids) true (c0 :: rest0) =
+  match find_child_from 0 c0 kids with
+  | None => RemNotFound
+  | Some i => match nth_error kids i with
+              | None => RemNotFound
+              | Some c => rem_child_root f (Node k r kids) i c (c0 :: rest0)
+              end
+  end.
+Proof.
+  cbn [rem]. unfold find_child, rem_child_root, rem_exact_root. cbn [nchildren nkey nroute].
+  destruct (find_child_from 0 c0 kids) as [i|]; auto.
+  destruct (nth_error kids i) as [c|]; auto.
+  destruct (Nat.eqb _ (List.length (nkey c))); auto.
+  destruct (Nat.eqb _ (List.length (c0 :: rest0))).
+  - destruct (nroute c); auto. destruct (nchildren c) as [|g [|g2 l]]; auto.
+    destruct (remove_nth kids i); auto. rewrite Bool.andb_false_r. auto.
+  - destruct (rem f c false _); auto.
+Qed.
+
+(* the result of remove seen from the roots *)
+Definition rem_top_post (s s' : st) (method : bytes) (idx : nat) (roots : list node) (res : rem_res) (out : option route) : Prop :=
+  good 1 s' /\ s_maxp s' = s_maxp s /\ s_depth s' = s_depth s /\
+  match res with
+  | RemNotFound => out = None /\ roots_rep s' roots /\ s_size s' = s_size s
+  | RemReplace root' r => out = Some r /\ roots_rep s' (set_nth roots idx root') /\ s_size s' = (s_size s - 1)%Z
+  | RemRoot parent r =>
+      out = Some r /\ s_size s' = (s_size s - 1)%Z /\
+      if (is_nil (nchildren parent) && is_removable method)%bool then roots_rep s' (del_nth roots idx)
+      else roots_rep s' (set_nth roots idx (Node method (nroute parent) (nchildren parent)))
+  | RemSplit _ => False
+  end.
+
+Section RemTop.
+Variable evict : N -> list addr -> list addr.
+Hypothesis evict_sub : forall c w a, In a (evict c w) -> In a w.
+
+(* the exact match at a child nx (index i') of the method root p' (in place, index idx of the roots) *)
+Lemma rem_root_base method idx s rs1 roots fps1 p' co' cch kr rr kidsr fpsn i' c nx c0 r out s' :
+  good 1 s ->
+  find_arr s (s_root s) = Some rs1 -> reps s rs1 roots fps1 -> NoDup (List.concat fps1) ->
+  ~ In (s_root s) (List.concat fps1) ->
+  nth_error rs1 idx = Some p' -> nth_error roots idx = Some (Node kr rr kidsr) ->
+  nth_error fps1 idx = Some (p' :: n_arr co' :: List.concat fpsn) -> method_index roots method = Some idx ->
+  find_node s p' = Some co' -> n_key co' = kr -> n_route co' = rr ->
+  find_arr s (n_arr co') = Some cch -> reps s cch kidsr fpsn ->
+  nth_error kidsr i' = Some c -> nth_error cch i' = Some nx ->
+  hd_byte (nkey c) = Some c0 -> find_child_from 0 c0 kidsr = Some i' ->
+  r_matched r = nx -> r_p r = Some p' ->
+  K_rem evict method idx r s = Ok (out, s') ->
+  rem_top_post s s' method idx roots
+    (if is_exact r (List.length (nkey c)) then
+       match nroute c with Some rt => rem_exact_root (Node kr rr kidsr) i' c rt | None => RemNotFound end
+     else RemNotFound) out.
+Proof.
+  intros G Hrs Hr ND NR Hp'i Hroot Hfpr MI Hp' Hk' Hr' Hcch Hkids Hc Hnx Hc0 Hfc Hm Hp H.
+  pose proof (good1_wf _ G) as Wf.
+  assert (RR0 : roots_rep s roots) by (exists rs1, fps1; auto).
+  destruct (all3_nth _ _ _ _ _ _ Hkids Hc) as (nx0 & fc & Hnx0 & Hfi' & Hrepc).
+  assert (nx0 = nx) by congruence. subst nx0.
+  destruct c as [kc rc kidsc]. cbn [nkey nroute nchildren] in *.
+  pose proof Hrepc as Hrepc0. apply rep_unfold in Hrepc.
+  destruct Hrepc as (mo & mch & fpsc & Hmo & Hk & Hrr & Hmch & Hkidsc & Hfc').
+  unfold K_rem in H. rewrite Hm in H. mbind H mo2 s0 H0. apply get_node_ok in H0. destruct H0 as [-> Hmo2].
+  assert (mo2 = mo) by congruence. subst mo2. rewrite Hk, Hrr in H.
+  unfold rem_top_post.
+  destruct (is_exact r (List.length kc)).
+  2:{ apply ret_ok in H. destruct H as [-> ->]. spl; auto. }
+  destruct rc as [rt|].
+  2:{ apply ret_ok in H. destruct H as [-> ->]. spl; auto. }
+  cbn [bind bump_size] in H.
+  match type of H with _ ?sm = _ => set (sb := sm) in * end.
+  assert (Gb : good 1 sb) by (unfold sb; apply good_set_meta; auto).
+  mbind H mch2 s0 H0. apply get_arr_ok in H0. destruct H0 as [-> Hmch2].
+  assert (mch2 = mch) by (unfold sb, find_arr in Hmch2; simpl in Hmch2; unfold find_arr in Hmch; congruence). subst mch2.
+  assert (Lall : Forall (V s) (List.concat fps1)) by (eapply reps_lt; eauto). rewrite Forall_forall in Lall.
+  pose proof (NoDup_concat_nth _ _ _ ND Hfpr) as NDp.
+  assert (Dn : NoDup (List.concat fpsn)) by (inversion NDp as [|? ? ? T]; inversion T; auto).
+  pose proof (NoDup_concat_nth _ _ _ Dn Hfi') as NDc. rewrite Hfc' in NDc.
+  assert (InP : forall y, In y (p' :: n_arr co' :: List.concat fpsn) -> In y (List.concat fps1)) by (intros y Hy; eapply in_lconcat_nth; eauto).
+  assert (Lc : forall y, In y fc -> y < s_next s).
+  { intros y Hy. apply Lall. apply InP. right. right. eapply in_lconcat_nth; eauto. }
+  assert (HrsB : find_arr sb (s_root sb) = Some rs1) by exact Hrs.
+  assert (HrB : reps sb rs1 roots fps1) by (eapply reps_frame; eauto; intros; split; reflexivity).
+  assert (Hp'B : find_node sb p' = Some co') by exact Hp'.
+  assert (HcchB : find_arr sb (n_arr co') = Some cch) by exact Hcch.
+  assert (HkidsB : reps sb cch kidsr fpsn) by (eapply reps_frame; eauto; intros; split; reflexivity).
+  (* after a patch inside the root p' *)
+  assert (Up : forall s1 kids', (forall y, y < s_next sb -> same_at sb s1 y) -> True ->
+               inplace_res sb s' p' co' fpsn kids' -> s_root s' = s_root s ->
+               roots_rep s' (set_nth roots idx (Node kr rr kids')) /\ good 1 s').
+  { intros s1 kids' _ _ IR Rt.
+    destruct (ascend_root sb s' rs1 roots fps1 idx p' co' fpsn kr rr kidsr kids' Gb HrsB HrB ND NR Hp'i Hroot Hfpr Hk' Hr' IR)
+      as (Hrs' & fps' & Hr'' & ND'' & NR'' & G').
+    split; auto. exists rs1, fps'. rewrite Rt. spl; auto. }
+  unfold rem_exact_root. cbn [nkey nroute nchildren].
+  assert (Lk : List.length mch = List.length kidsc) by (destruct (all3_len _ _ _ _ Hkidsc); auto).
+  destruct mch as [|c1 [|c2 mch]]; destruct kidsc as [|g1 [|g2 kidsc]]; simpl in Lk; try discriminate.
+  - (* no children: the root is rebuilt without this edge *)
+    rewrite Hp in H. mbind H p0 s0 H0. apply opt_get_ok in H0. destruct H0 as [E0 ->]. inversion E0; subst p0; clear E0.
+    mbind H po s0 H0. apply get_node_ok in H0. destruct H0 as [-> Hpo].
+    assert (po = co') by (unfold sb, find_node in Hpo; simpl in Hpo; unfold find_node in Hp'; congruence). subst po.
+    mbind H pe s1 H1.
+    destruct (recreate_rep _ _ _ _ _ _ _ _ _ _ Gb Hp'B HcchB HkidsB Dn Hnx H1) as (Epe & N1 & Fpe & Old1 & MS1 & G1 & Rpe). clear H1.
+    assert (Nb : s_next sb = s_next s) by reflexivity.
+    destruct MS1 as (A1 & A2 & A3 & A4 & A5).
+    destruct (wf_arr _ Wf _ _ Hrs) as [VR _].
+    assert (Hrs1 : find_arr s1 (s_root s1) = Some rs1).
+    { rewrite A1. unfold sb at 1. simpl. rewrite (proj2 (Old1 _ ltac:(rewrite Nb; exact VR))). exact Hrs. }
+    mbind H rs' s2 H2. unfold get_roots, bind, get_root, get_arr in H2.
+    unfold find_arr in Hrs1. rewrite Hrs1 in H2. inversion H2; subst rs' s2; clear H2. fold (find_arr s1 (s_root s1)) in Hrs1.
+    mbind H cr0 s2 H2. apply opt_get_ok in H2. destruct H2 as [E0 ->]. assert (cr0 = p') by congruence. subst cr0. clear E0.
+    rewrite Pos.eqb_refl in H.
+    mbind H pel s2 H2. apply get_arr_ok in H2. destruct H2 as [-> Hpel].
+    simpl negb in H. rewrite Bool.andb_false_r in H.
+    mbind H parent s3 H3.
+    assert (Lfn : forall y, In y (List.concat fpsn) -> y < s_next s) by (intros y Hy; apply Lall; apply InP; simpl; auto).
+    assert (Npe : ~ In pe (List.concat (del_nth fpsn i'))).
+    { intros Hin. apply in_concat_del_nth in Hin. apply Lfn in Hin. lia. }
+    destruct (rebuild_parent_rep _ _ (Node kr rr kidsr) _ _ _ _ _ _ _ _ G1 Fpe Rpe (NoDup_concat_del_nth _ i' Dn) Npe Hk' Hr' H3)
+      as (fx & Rx & NDx & Subx & Ex & N3 & Old3 & MS3 & G3 & Ownx & Inx). clear H3.
+    rewrite del_nth_remove in Rx. simpl negb in Rx.
+    destruct MS3 as (C1 & C2 & C3 & C4 & C5).
+    assert (Old03 : forall y, y < s_next s -> same_at s s3 y).
+    { intros y Ly. eapply same_at_trans; [split; reflexivity|]. eapply same_at_trans; [apply Old1; rewrite Nb; auto|]. apply Old3; lia. }
+    assert (Rt3 : s_root s3 = s_root s) by (rewrite C1, A1; reflexivity).
+    assert (Hrs3 : find_arr s3 (s_root s3) = Some rs1) by (rewrite Rt3, (proj2 (Old03 _ VR)); auto).
+    assert (Hr3 : reps s3 rs1 roots fps1).
+    { eapply reps_frame; [exact Hr|]. intros y Hy. apply Old03. apply Lall. auto. }
+    mbind H b s4 H4.
+    destruct (rebuild (Node kr rr kidsr) true (remove_nth kidsr i') false) as [pk pr pks] eqn:Ereb.
+    destruct (finish_root_rep evict evict_sub method s3 rs1 roots fps1 idx _ _ parent _ _ _ fx b s4
+                G3 Hrs3 Hr3 ND ltac:(rewrite Rt3; exact NR) MI Hroot Hfpr Rx (Ownx eq_refl) NDx) as (Eb & G4 & Z4 & P4 & D4 & Ch4 & RR); auto.
+    { intros Hin. apply Lall in Hin. unfold V in Hin. lia. }
+    { intros y Hy. destruct (Subx y Hy) as [->|[->|Hin]].
+      - right. intros Hin. apply Lall in Hin. unfold V in Hin. lia.
+      - right. intros Hin. apply Lall in Hin. unfold V in Hin. lia.
+      - left. right. right. eapply in_concat_del_nth; eauto. }
+    { rewrite Rt3. intros Hin. destruct (Subx _ Hin) as [E|[E|Hin']].
+      - unfold V in VR. lia. - unfold V in VR. lia.
+      - apply NR. apply InP. right. right. eapply in_concat_del_nth; eauto. }
+    subst b. apply ret_ok in H. destruct H as [-> <-].
+    cbn [nroute nchildren]. unfold sb in *. cbn [s_size s_root s_maxp s_depth s_cache set_meta] in *.
+    spl; auto; try congruence; try lia.
+  - (* one child *)
+    destruct fpsc as [|fg [|fg2 fpsc]]; simpl in Hkidsc; try tauto.
+    destruct Hkidsc as [Hg1 _]. destruct g1 as [kg rg kidsg]. pose proof Hg1 as Hg10. apply rep_unfold in Hg1.
+    destruct Hg1 as (co & gch & fpsg & Hco & Hkg & Hrg & Hgch & Hkidsg & Hfg).
+    mbind H co2 s1 H1. apply get_node_ok in H1. destruct H1 as [-> Hco2].
+    assert (co2 = co) by (unfold sb, find_node in Hco2; simpl in Hco2; unfold find_node in Hco; congruence). subst co2.
+    mbind H x s1 H1. rewrite Hkg, Hrg in H1.
+    assert (Hgchb : find_arr sb (n_arr co) = Some gch) by exact Hgch.
+    assert (Hkidsgb : reps sb gch kidsg fpsg) by (eapply reps_frame; eauto; intros; split; reflexivity).
+    destruct (nnfr_rep _ _ _ _ _ _ _ _ _ Gb Hgchb Hkidsgb H1) as (Ex & Nx & Rx & Oldx & MSx & Gx). clear H1.
+    rewrite Hp in H. mbind H p0 s2 H2. apply opt_get_ok in H2. destruct H2 as [E0 ->]. inversion E0; subst p0; clear E0.
+    mbind H u s2 H2. apply ret_ok in H. destruct H as [-> <-]. destruct u.
+    simpl in Hfc', NDc. rewrite app_nil_r in Hfc', NDc. rewrite Hfg in NDc.
+    assert (NDx : NoDup (x :: n_arr co :: List.concat fpsg)).
+    { inversion NDc as [|? ? _ T]; inversion T as [|? ? _ T2]. inversion T2 as [|? ? M1 M2].
+      constructor; auto. intros Hin. assert (x < s_next s).
+      { apply Lc. rewrite Hfc', Hfg. right. right. right. auto. } unfold sb in Ex. simpl in Ex. lia. }
+    destruct (install sb s1 p' co' cch kidsr fpsn i' (Node kc (Some rt) [Node kg rg kidsg]) fc c0 x _ _ s' Gb Hp'B HcchB
+                HkidsB NDp Hc Hfi' Hc0 Hfc Oldx ltac:(lia) Gx Rx) as (IR & MS2); auto.
+    { cbn [nkey]. destruct kc; [discriminate|]. exact Hc0. }
+    { intros y [<-|Hin]; [right; lia|]. left. rewrite Hfc', Hfg. right. right. right. auto. }
+    destruct MSx as (C1 & C2 & C3 & C4 & C5). destruct MS2 as (D1 & D2 & D3 & D4 & D5).
+    destruct (Up s1 _ Oldx I IR ltac:(rewrite D1, C1; reflexivity)) as (RR & G').
+    unfold merge_child. cbn [nkey nroute nchildren]. rewrite <- set_nth_replace.
+    unfold sb in *. cbn [s_size s_root s_maxp s_depth s_cache set_meta] in *.
+    spl; auto; try congruence; try lia.
+  - (* several children *)
+    mbind H x s1 H1.
+    assert (Hmchb : find_arr sb (n_arr mo) = Some (c1 :: c2 :: mch)) by exact Hmch.
+    assert (Hkidscb : reps sb (c1 :: c2 :: mch) (g1 :: g2 :: kidsc) fpsc) by (eapply reps_frame; eauto; intros; split; reflexivity).
+    destruct (nnfr_rep _ _ _ _ _ _ _ _ _ Gb Hmchb Hkidscb H1) as (Ex & Nx & Rx & Oldx & MSx & Gx). clear H1.
+    rewrite Hp in H. mbind H p0 s2 H2. apply opt_get_ok in H2. destruct H2 as [E0 ->]. inversion E0; subst p0; clear E0.
+    mbind H u s2 H2. apply ret_ok in H. destruct H as [-> <-]. destruct u.
+    assert (NDx : NoDup (x :: n_arr mo :: List.concat fpsc)).
+    { inversion NDc as [|? ? M1 M2]. constructor; auto. intros Hin. assert (x < s_next s).
+      { apply Lc. rewrite Hfc'. right. auto. } unfold sb in Ex. simpl in Ex. lia. }
+    destruct (install sb s1 p' co' cch kidsr fpsn i' (Node kc (Some rt) (g1 :: g2 :: kidsc)) fc c0 x _ _ s' Gb Hp'B HcchB
+                HkidsB NDp Hc Hfi' Hc0 Hfc Oldx ltac:(lia) Gx Rx) as (IR & MS2); auto.
+    { intros y [<-|Hin]; [right; lia|]. left. rewrite Hfc'. right. auto. }
+    destruct MSx as (C1 & C2 & C3 & C4 & C5). destruct MS2 as (D1 & D2 & D3 & D4 & D5).
+    destruct (Up s1 _ Oldx I IR ltac:(rewrite D1, C1; reflexivity)) as (RR & G').
+    rewrite <- set_nth_replace.
+    unfold sb in *. cbn [s_size s_root s_maxp s_depth s_cache set_meta] in *.
+    spl; auto; try congruence; try lia.
+Qed.
+
+End RemTop.
+
+Section RemThm.
+Variable evict : N -> list addr -> list addr.
+Hypothesis evict_sub : forall c w a, In a (evict c w) -> In a w.
+
+Lemma remove_at_root m idx path s rs roots fps rn root out s' :
+  good 1 s -> find_arr s (s_root s) = Some rs -> reps s rs roots fps -> NoDup (List.concat fps) ->
+  ~ In (s_root s) (List.concat fps) -> roots_wf roots ->
+  method_index roots m = Some idx -> nth_error roots idx = Some root -> nth_error rs idx = Some rn ->
+  (r <- cow_search evict rn path ;; K_rem evict m idx r) s = Ok (out, s') ->
+  rem_top_post s s' m idx roots (rem (S (List.length path)) root true path) out.
+Proof.
+  intros G Hrs Hr ND NR (RO & L4 & RN) MI Hroot Hrn H.
+  assert (RR0 : roots_rep s roots) by (exists rs, fps; auto).
+  destruct (all3_nth _ _ _ _ _ _ Hr Hroot) as (rn0 & fpr & Hrn0 & Hfpr & Hrep).
+  assert (rn0 = rn) by congruence. subst rn0.
+  pose proof (RN _ (nth_error_In _ _ Hroot)) as Err.
+  destruct root as [kr rr kidsr]. cbn [nroute] in Err. subst rr.
+  unfold cow_search in H.
+  destruct path as [|c rest0].
+  - simpl in H. unfold bind at 1 in H. unfold ret at 1 in H. unfold K_rem in H. cbn [r_matched] in H.
+    mbind H mo s0 H0. apply get_node_ok in H0. destruct H0 as [-> Hmo].
+    destruct (rep_key _ _ _ _ Hrep) as (o & Ho & _ & Hro). assert (o = mo) by congruence. subst o. cbn [nroute] in Hro.
+    rewrite Hro in H. destruct (is_exact _ _); apply ret_ok in H; destruct H as [-> ->]; unfold rem_top_post; simpl; spl; auto.
+  - rewrite cow_loop_unfold_root in H.
+    destruct (get_edge_rep _ _ _ _ _ _ c Hrep) as (co & cch & fpsn & Hco & Hcch & Hkids & GE).
+    rewrite GE in H. simpl List.length. rewrite rem_step_root. unfold find_child in *. cbn [nchildren nkey nroute] in *.
+    destruct (find_child_from 0 c kidsr) as [i'|] eqn:Hfi.
+    2:{ unfold K_rem in H. cbn [r_matched] in H. mbind H mo s2 H2. apply get_node_ok in H2. destruct H2 as [-> _].
+        unfold is_exact in H. cbn [r_rest] in H. apply ret_ok in H. destruct H as [-> ->]. unfold rem_top_post. spl; auto. }
+    destruct (nth_error cch i') as [nx|] eqn:Hnx.
+    2:{ destruct (nth_error kidsr i') as [cc|] eqn:Hcc.
+        - destruct (all3_nth _ _ _ _ _ _ Hkids Hcc) as (? & ? & Hx & _). congruence.
+        - exfalso. apply find_child_from_lt in Hfi. apply nth_error_None in Hcc. lia. }
+    destruct (all3_nth_a _ _ _ _ _ _ Hkids Hnx) as (c1 & fc & Hc1 & Hfc1 & Hrepc).
+    rewrite Hc1.
+    destruct (relink_root evict rn s) as [[p' s1]| |] eqn:RL; try discriminate.
+    destruct (descend_root evict evict_sub s rs roots fps idx rn (Node kr None kidsr) fpr p' s1
+                G Hrs Hr ND NR Hroot Hrn Hfpr (RO _ _ Hroot) RL)
+      as (co2 & co' & cch2 & fpsn2 & Hco2 & Hcch2 & Hkids2 & Hfpn & Hp' & Hk' & Hr' & Hcch' & Hkids' & Hrs1 & Hr1 & ND1 & NR1 & Old1 & Nx1 & SF1 & Z1 & P1 & D1 & G1 & NDp' & NRp').
+    assert (co2 = co) by congruence. subst co2. assert (cch2 = cch) by congruence. subst cch2.
+    cbn [nchildren nkey nroute] in *.
+    destruct (all3_nth _ _ _ _ _ _ Hkids' Hc1) as (nx1 & fc1 & Hnx1 & Hfc1' & Hrepc1).
+    assert (nx1 = nx) by congruence. subst nx1.
+    set (rs1 := set_nth rs idx p') in *. set (fps1 := set_nth fps idx (p' :: n_arr co' :: List.concat fpsn2)) in *.
+    assert (Hp'i : nth_error rs1 idx = Some p') by (eapply nth_set_nth_eq; eauto).
+    assert (Hfp1 : nth_error fps1 idx = Some (p' :: n_arr co' :: List.concat fpsn2)) by (eapply nth_set_nth_eq; eauto).
+    assert (RR1 : roots_rep s1 roots) by (exists rs1, fps1; auto).
+    destruct (rep_key _ _ _ _ Hrepc1) as (nxo & Hnxo & Knx & Rnx).
+    assert (KO : key_of nx s1 = Ok (nkey c1, s1)).
+    { unfold key_of, bind, get_node. unfold find_node in Hnxo. rewrite Hnxo. unfold ret. rewrite Knx. auto. }
+    rewrite KO in H.
+    destruct (match_key (nkey c1) (c :: rest0)) as [[m0 rest'] brk] eqn:MK.
+    destruct (match_key_spec _ _ _ _ _ MK) as (Em & Er & Lm1 & Lm2 & Bt & Bf).
+    assert (Hc0' : hd_byte (nkey c1) = Some c) by (eapply find_child_hd; eauto).
+    unfold rem_child_root. cbn [nkey nroute nchildren]. rewrite <- Em.
+    assert (Conv : forall res, rem_top_post s1 s' m idx roots res out -> rem_top_post s s' m idx roots res out).
+    { unfold rem_top_post. intros res (A & B & C & D). rewrite <- Z1, <- P1, <- D1. spl; auto. }
+    destruct brk.
+    + destruct (Bt eq_refl) as [B1 B2].
+      unfold K_rem in H. cbn [r_matched] in H. mbind H mo s2 H2. apply get_node_ok in H2. destruct H2 as [-> _].
+      assert (Hrest' : rest' <> []) by (rewrite Er; apply skipn_len_lt; auto).
+      destruct rest' as [|x rest'']; [congruence|]. unfold is_exact in H. cbn [r_rest] in H.
+      apply ret_ok in H. destruct H as [-> ->].
+      assert (E1 : Nat.eqb m0 (List.length (nkey c1)) = false) by (apply Nat.eqb_neq; lia).
+      rewrite E1. apply Conv. unfold rem_top_post. spl; auto.
+    + destruct rest' as [|x rest''].
+      * assert (Em2 : m0 = List.length (c :: rest0)) by (symmetry in Er; apply skipn_nil_iff in Er; auto).
+        simpl in H. unfold bind at 1 in H. unfold ret at 1 in H.
+        match type of H with K_rem _ _ _ ?rr _ = _ =>
+          pose proof (rem_root_base evict evict_sub m idx s1 rs1 roots fps1 p' co' cch kr None kidsr fpsn2 i' c1 nx c rr out s'
+                        G1 Hrs1 Hr1 ND1 NR1 Hp'i Hroot Hfp1 MI Hp' Hk' Hr' Hcch' Hkids' Hc1 Hnx Hc0' Hfi eq_refl eq_refl H) as P
+        end.
+        unfold is_exact in P. cbn [r_rest r_cmin] in P.
+        assert (E2 : Nat.eqb m0 (List.length (c :: rest0)) = true) by (apply Nat.eqb_eq; lia).
+        rewrite E2. apply Conv. destruct (Nat.eqb m0 (List.length (nkey c1))); exact P.
+      * destruct (Bf eq_refl) as [B|B].
+        2:{ exfalso. assert (skipn m0 (c :: rest0) = []) by (apply skipn_nil_iff; auto). congruence. }
+        assert (E1 : Nat.eqb m0 (List.length (nkey c1)) = true) by (apply Nat.eqb_eq; lia).
+        assert (E2 : Nat.eqb m0 (List.length (c :: rest0)) = false).
+        { apply Nat.eqb_neq. intros E. assert (skipn m0 (c :: rest0) = []) by (apply skipn_nil_iff; auto; lia). congruence. }
+        rewrite E1, E2. rewrite <- Er. rewrite B in H.
+        assert (Ncr : ~ In p' (List.concat fpsn2)) by (inversion NDp' as [|? ? Hx _]; intros Hin; apply Hx; simpl; auto).
+        assert (GC : gctx_ok s1 m idx p' (Node kr None kidsr) (p' :: n_arr co' :: List.concat fpsn2) p' None (GRoot rs1 roots fps1)).
+        { simpl. spl; auto. }
+        pose proof (rem_sim evict evict_sub m idx _ s1 p' co' cch kidsr fpsn2 i' nx c1 fc1 c kr None (GRoot rs1 roots fps1) p' rs1 None None
+                      (x :: rest'') (c :: rest0) (0 + List.length (nkey c1))%nat 1%nat out s'
+                      G1 Hp' Hcch' Hkids' NDp' Hk' Hr' Hc1 Hnx Hfc1' Hc0' Hfi Hrs1 Hp'i Ncr NRp' GC ltac:(discriminate) H)
+          as (Q1 & Q2 & Q3 & P).
+        assert (Fin : forall kids', inplace_res s1 s' p' co' fpsn2 kids' -> s_root s' = s_root s1 ->
+                      roots_rep s' (set_nth roots idx (Node kr None kids')) /\ good 1 s').
+        { intros kids' IR Rt.
+          destruct (ascend_root s1 s' rs1 roots fps1 idx p' co' fpsn2 kr None kidsr kids' G1 Hrs1 Hr1 ND1 NR1 Hp'i Hroot Hfp1 Hk' Hr' IR)
+            as (Hrs' & fps' & Hr'' & ND'' & NR'' & G').
+          split; auto. exists rs1, fps'. rewrite Rt. spl; auto. }
+        apply Conv. unfold rem_top_post.
+        destruct (rem _ c1 false (x :: rest'')) as [|c' r|r|? ?].
+        -- destruct P as (-> & IR & Z & Rt). destruct (Fin _ IR Rt) as [X Y]. rewrite (set_nth_same roots idx _ Hroot) in X. spl; auto.
+        -- destruct P as (-> & IR & Z & Rt). destruct (Fin _ IR Rt) as [X Y]. rewrite <- set_nth_replace. spl; auto.
+        -- destruct P as (-> & Z & (G' & GP)). cbn [g_isroot] in GP. spl; auto.
+        -- destruct P.
+Qed.
+
+End RemThm.
+
+(* ---------- the roots list stays well formed ---------- *)
+Definition keys_wf (ks : list bytes) : Prop :=
+  firstn 4 ks = common_verbs /\ NoDup (skipn 4 ks) /\ (forall k, In k (skipn 4 ks) -> is_removable k = true).
+
+Definition mik (ks : list bytes) (m : bytes) : option nat :=
+  if bytes_eqb m m_get then Some 0%nat
+  else if bytes_eqb m m_post then Some 1%nat
+  else if bytes_eqb m m_put then Some 2%nat
+  else if bytes_eqb m m_delete then Some 3%nat
+  else find_eq_from 4 m (skipn 4 ks).
+
+Lemma method_index_mik rs m : method_index rs m = mik (map nkey rs) m.
+Proof. unfold method_index, mik. rewrite <- find_eq_key, skipn_map. reflexivity. Qed.
+
+Lemma is_removable_spec m : is_removable m = true <->
+  bytes_eqb m m_get = false /\ bytes_eqb m m_post = false /\ bytes_eqb m m_put = false /\ bytes_eqb m m_delete = false.
+Proof.
+  unfold is_removable, common_verbs. simpl. rewrite Bool.orb_false_r.
+  destruct (bytes_eqb m m_get), (bytes_eqb m m_post), (bytes_eqb m m_put), (bytes_eqb m m_delete); simpl; intuition congruence.
+Qed.
+
+Lemma find_eq_from_spec m ks : forall b i, find_eq_from b m ks = Some i ->
+  (b <= i)%nat /\ nth_error ks (i - b) = Some m /\ (forall j, (j < i - b)%nat -> nth_error ks j <> Some m).
+Proof.
+  induction ks as [|k ks IH]; intros b i H; simpl in H; [discriminate|].
+  destruct (bytes_eqb_spec k m) as [E|E].
+  - inversion H; subst. replace (i - i)%nat with 0%nat by lia. simpl. spl; auto; try lia; try (intros j Hj; lia).
+  - destruct (IH _ _ H) as (L & Hn & Hf). replace (i - b)%nat with (S (i - S b)) by lia. simpl. spl; auto; try lia.
+    intros [|j] Hj; simpl; [congruence|]. apply Hf. lia.
+Qed.
+
+Lemma find_eq_from_first m ks : forall b a, nth_error ks a = Some m -> (forall j, (j < a)%nat -> nth_error ks j <> Some m) ->
+  find_eq_from b m ks = Some (b + a)%nat.
+Proof.
+  induction ks as [|k ks IH]; intros b [|a] H Hf; simpl in *; try discriminate.
+  - inversion H; subst. rewrite bytes_eqb_refl. f_equal. lia.
+  - destruct (bytes_eqb_spec k m) as [E|E].
+    + exfalso. apply (Hf 0%nat); [lia|]. simpl. congruence.
+    + rewrite (IH (S b) a H). * f_equal. lia. * intros j Hj. apply (Hf (S j)). lia.
+Qed.
+
+Lemma nth_firstn {A} (l : list A) k i : (i < k)%nat -> nth_error (firstn k l) i = nth_error l i.
+Proof. revert l i. induction k as [|k IH]; intros [|x l] [|i] L; simpl; auto; try lia. apply IH. lia. Qed.
+
+Lemma keys_wf_mik ks : keys_wf ks -> forall i k, nth_error ks i = Some k -> mik ks k = Some i.
+Proof.
+  intros (F4 & ND & RM) i k Hi.
+  destruct (Nat.lt_ge_cases i 4) as [L|L].
+  - assert (Hk : nth_error (firstn 4 ks) i = Some k) by (rewrite nth_firstn; auto).
+    rewrite F4 in Hk. unfold common_verbs in Hk.
+    destruct i as [|[|[|[|i]]]]; simpl in Hk; try lia; inversion Hk; subst; reflexivity.
+  - assert (Hs : nth_error (skipn 4 ks) (i - 4) = Some k) by (rewrite nth_skipn; replace (4 + (i - 4))%nat with i by lia; auto).
+    pose proof (RM _ (nth_error_In _ _ Hs)) as R. apply is_removable_spec in R. destruct R as (R1 & R2 & R3 & R4).
+    unfold mik. rewrite R1, R2, R3, R4.
+    rewrite (find_eq_from_first k (skipn 4 ks) 4 (i - 4) Hs).
+    + f_equal. lia.
+    + intros j Hj Hn. rewrite NoDup_nth_error in ND.
+      assert (j = (i - 4)%nat); [|lia]. apply ND; [apply nth_error_Some; congruence|congruence].
+Qed.
+
+Lemma roots_ok_keys rs : roots_ok rs -> (4 <= List.length rs)%nat -> keys_wf (map nkey rs).
+Proof.
+  intros RO L. unfold roots_ok in RO.
+  assert (RO' : forall i k, nth_error (map nkey rs) i = Some k -> mik (map nkey rs) k = Some i).
+  { intros i k Hi. rewrite nth_error_map in Hi. destruct (nth_error rs i) as [r|] eqn:Hr; [|discriminate].
+    inversion Hi; subst. rewrite <- method_index_mik. auto. }
+  set (ks := map nkey rs) in *. assert (Lk : (4 <= List.length ks)%nat) by (unfold ks; rewrite map_length; auto).
+  clearbody ks. clear RO L rs.
+  assert (Verb : forall i k, (i < 4)%nat -> nth_error ks i = Some k -> k = nth i common_verbs []).
+  { intros i k Li Hi. pose proof (RO' _ _ Hi) as M. unfold mik in M.
+    destruct (bytes_eqb_spec k m_get) as [->|]; [inversion M; reflexivity|].
+    destruct (bytes_eqb_spec k m_post) as [->|]; [inversion M; reflexivity|].
+    destruct (bytes_eqb_spec k m_put) as [->|]; [inversion M; reflexivity|].
+    destruct (bytes_eqb_spec k m_delete) as [->|]; [inversion M; reflexivity|].
+    apply find_eq_from_spec in M. lia. }
+  split; [|split].
+  - destruct ks as [|k0 [|k1 [|k2 [|k3 ks]]]]; simpl in Lk; try lia. simpl.
+    rewrite (Verb 0%nat k0), (Verb 1%nat k1), (Verb 2%nat k2), (Verb 3%nat k3); auto; lia.
+  - apply NoDup_nth_error. intros a b La E. rewrite !nth_skipn in E.
+    destruct (nth_error ks (4 + a)) as [k|] eqn:Ha; [|apply nth_error_None in Ha; rewrite skipn_length in La; lia].
+    symmetry in E. pose proof (RO' _ _ Ha) as M1. pose proof (RO' _ _ E) as M2. rewrite M1 in M2. inversion M2. lia.
+  - intros k Hk. apply In_nth_error in Hk. destruct Hk as (a & Ha). rewrite nth_skipn in Ha.
+    pose proof (RO' _ _ Ha) as M. apply is_removable_spec. unfold mik in M.
+    destruct (bytes_eqb k m_get); [inversion M; lia|]. destruct (bytes_eqb k m_post); [inversion M; lia|].
+    destruct (bytes_eqb k m_put); [inversion M; lia|]. destruct (bytes_eqb k m_delete); [inversion M; lia|]. auto.
+Qed.
+
+Lemma keys_wf_roots_ok rs : keys_wf (map nkey rs) -> roots_ok rs /\ (4 <= List.length rs)%nat.
+Proof.
+  intros K. split.
+  - intros i r Hr. rewrite method_index_mik. apply keys_wf_mik; auto. rewrite nth_error_map, Hr. reflexivity.
+  - destruct K as (F4 & _). assert (List.length (firstn 4 (map nkey rs)) = 4%nat) by (rewrite F4; reflexivity).
+    rewrite firstn_length, map_length in H. lia.
+Qed.
+
+Lemma map_del_nth {A B} (f : A -> B) l i : map f (del_nth l i) = del_nth (map f l) i.
+Proof. revert i. induction l as [|x l IH]; intros [|i]; simpl; auto. f_equal. auto. Qed.
+
+Lemma del_nth_skipn {A} (l : list A) i : (4 <= i)%nat -> firstn 4 (del_nth l i) = firstn 4 l /\ skipn 4 (del_nth l i) = del_nth (skipn 4 l) (i - 4).
+Proof.
+  intros L. do 4 (destruct i as [|i]; [lia|]). simpl.
+  destruct l as [|a [|b [|c [|d l]]]]; simpl; auto. replace (i - 0)%nat with i by lia. auto.
+Qed.
+
+Lemma NoDup_del_nth {A} (l : list A) i : NoDup l -> NoDup (del_nth l i).
+Proof.
+  revert i. induction l as [|x l IH]; intros [|i] H; simpl; auto; inversion H; subst; auto.
+  constructor; auto. intros Hin. apply H2. clear -Hin. revert i Hin. induction l as [|y l IH]; intros [|i] Hin; simpl in *; auto.
+  destruct Hin; eauto.
+Qed.
+
+Lemma in_del_nth' {A} (l : list A) i x : In x (del_nth l i) -> In x l.
+Proof. revert i. induction l as [|y l IH]; intros [|i] H; simpl in *; auto. destruct H; eauto. Qed.
+
+Lemma roots_wf_del rs i : roots_wf rs -> (4 <= i)%nat -> roots_wf (del_nth rs i).
+Proof.
+  intros (RO & L & RN) Li.
+  pose proof (roots_ok_keys rs RO L) as (F4 & ND & RM).
+  assert (K : keys_wf (map nkey (del_nth rs i))).
+  { rewrite map_del_nth. destruct (del_nth_skipn (map nkey rs) i Li) as [E1 E2]. unfold keys_wf. rewrite E1, E2. spl; auto.
+    - apply NoDup_del_nth. auto.
+    - intros k Hk. apply RM. eapply in_del_nth'; eauto. }
+  destruct (keys_wf_roots_ok _ K) as [RO' L']. split; [|split]; auto.
+  intros r Hr. apply RN. eapply in_del_nth'; eauto.
+Qed.
+
+Lemma removable_index rs m i : method_index rs m = Some i -> is_removable m = true -> (4 <= i)%nat.
+Proof.
+  intros H R. apply is_removable_spec in R. destruct R as (R1 & R2 & R3 & R4).
+  unfold method_index in H. rewrite R1, R2, R3, R4 in H. apply find_key_from_spec in H. lia.
+Qed.
+
+Lemma rem_root_shape f k r kids rest :
+  match rem f (Node k r kids) true rest with
+  | RemReplace n' _ => nkey n' = k /\ nroute n' = r
+  | RemRoot parent _ => nroute parent = r
+  | _ => True
+  end.
+Proof.
+  destruct f as [|f]; [simpl; auto|]. destruct rest as [|c rest0]; [simpl; auto|].
+  rewrite rem_step_root. destruct (find_child_from 0 c kids) as [i|]; auto.
+  destruct (nth_error kids i) as [c1|]; auto.
+  unfold rem_child_root, rem_exact_root. cbn [nkey nroute nchildren].
+  destruct (Nat.eqb _ (List.length (nkey c1))); auto.
+  destruct (Nat.eqb _ (List.length (c :: rest0))).
+  - destruct (nroute c1); auto. destruct (nchildren c1) as [|g [|g2 l]]; simpl; auto.
+    unfold rebuild. destruct (remove_nth kids i) as [|e [|e2 el]]; simpl; auto.
+    rewrite Bool.andb_false_r. reflexivity.
+  - destruct (rem f c1 false _); simpl; auto.
+    unfold rebuild. destruct (remove_nth kids i) as [|e [|e2 el]]; simpl; auto.
+    rewrite Bool.andb_false_r. reflexivity.
+Qed.
+
+Section RemThm2.
+Variable evict : N -> list addr -> list addr.
+Hypothesis evict_sub : forall c w a, In a (evict c w) -> In a w.
+
+Theorem h_remove_refines m path s T out s' :
+  good 1 s -> trep s T -> roots_wf (t_roots T) ->
+  h_remove evict m path s = Ok (out, s') ->
+  good 1 s' /\
+  match remove T m path with
+  | DOk T' r => out = Some r /\ trep s' T' /\ roots_wf (t_roots T')
+  | DNotFound => out = None /\ trep s' T
+  end.
+Proof.
+  intros G TR WF H. pose proof TR as TR0. apply trep_roots in TR. destruct TR as ((rs & fps & Hrs & Hr & ND & NR) & Zs & Ps & Ds).
+  rewrite h_remove_unfold in H. unfold remove.
+  mbind H idx s0 H0. rewrite (h_method_index_rep _ _ _ _ _ Hrs Hr) in H0. inversion H0; subst idx s0; clear H0.
+  destruct (method_index (t_roots T) m) as [i|] eqn:MI.
+  2:{ apply ret_ok in H. destruct H as [-> ->]. auto. }
+  mbind H rs' s0 H0. unfold get_roots, bind, get_root, get_arr in H0. unfold find_arr in Hrs. rewrite Hrs in H0.
+  inversion H0; subst rs' s0; clear H0. fold (find_arr s (s_root s)) in Hrs.
+  mbind H rn s0 H0. apply opt_get_ok in H0. destruct H0 as [Hrn ->].
+  destruct (all3_nth_a _ _ _ _ _ _ Hr Hrn) as (root & fpr & Hroot & Hfpr & Hrep).
+  rewrite Hroot.
+  pose proof (remove_at_root evict evict_sub m i path s rs (t_roots T) fps rn root out s' G Hrs Hr ND NR WF MI Hroot Hrn H)
+    as (G' & Mp & Dp & P).
+  split; auto.
+  destruct WF as (RO & L4 & RN).
+  pose proof (method_index_key _ _ _ _ RO MI Hroot) as Ekr.
+  pose proof (RN _ (nth_error_In _ _ Hroot)) as Err.
+  destruct root as [kr rr kidsr]. cbn [nkey nroute] in Ekr, Err. subst rr kr.
+  pose proof (rem_root_shape (S (List.length path)) m None kidsr path) as Sh.
+  destruct (rem (S (List.length path)) (Node m None kidsr) true path) as [|root' r|r|parent r].
+  - destruct P as (-> & RR & Z). split; auto. apply trep_roots. spl; auto; congruence.
+  - destruct P as (-> & RR & Z). destruct Sh as [K1 K2]. split; auto. rewrite <- set_nth_replace. split.
+    + apply trep_roots. simpl. spl; auto; try congruence; try lia.
+    + simpl. eapply roots_wf_set; eauto. split; auto.
+  - destruct P.
+  - destruct P as (-> & Z & RR).
+    destruct (is_nil (nchildren parent) && is_removable m)%bool eqn:Erm; (split; [reflexivity|]).
+    + rewrite <- del_nth_remove. split.
+      * apply trep_roots. simpl. spl; auto; try congruence; try lia.
+      * simpl. apply roots_wf_del; [split; auto|]. apply Bool.andb_true_iff in Erm. eapply removable_index; eauto. tauto.
+    + rewrite <- set_nth_replace. split.
+      * apply trep_roots. simpl. spl; auto; try congruence; try lia.
+      * simpl. eapply roots_wf_set; eauto. split; auto.
+Qed.
+
+End RemThm2.
